@@ -19,12 +19,13 @@ Ltac splits := repeat match goal with |- _ /\ _ => split end.
 
 (* ------------------------------------------------------------------ function definitions at chunk level *)
 
-(* the world after the definition of the function d *)
+(* the world after the creation of the closure d, bound to the name fd_var d *)
 Definition world_add (W : world) (d : fdyn) : world :=
-  mkWorld (fun c x => w_IS W c x \/ (c = fd_cf d /\ x = SyltSem.SClos (fd_ci d)))
-          (fun p lv => w_IL W p lv \/ (p = fd_pf d /\ lv = VFun (fd_fid d)))
-          (w_CS W) (w_CL W)
-          (d :: w_funs W).
+  mkWorld (w_R W) (fun c p d' => w_F W c p d' \/ (c = fd_cf d /\ p = fd_pf d /\ d' = d))
+          (fun d' => w_D W d' \/ d' = d) (w_P W) (w_pc W).
+
+Lemma wsub_world_add W d : wsub W (world_add W d).
+Proof. unfold wsub, world_add. cbn. repeat split; auto. Qed.
 
 Section DefFun.
 Variable pv : N.
@@ -53,89 +54,101 @@ Proof.
   - unfold alloc_closure, alloc_cell. cbn [snd s_nclo]. lia.
 Qed.
 
-(* `local function V<fv>(ps) <body> end` for a top-level function: it joins the callable functions and the
-   world; the description d records its code, its cells and its closure environments *)
-Lemma rel_define_function fl W sc e st E stL fv ps body g k scout bc ctx c c2 l :
+(* `local function V<fv>(ps) <body> end`: the closure joins the world, its name the callable functions; the
+   description d records its code, its cells and its closure environments *)
+Lemma rel_define_function fl W sc e st E stL fv ps ks body g k scout bc ctx c c2 l :
   rel pv sv bound u fl W sc e st E stL ->
-  (forall d, In d (w_funs W) -> In (fd_var d) (fnames fl)) ->
   fresh_id pv sv bound fl sc fv = true ->
-  params_ok pv sv bound ((fv, length ps) :: fl) sc ps = true ->
-  frag_stmts pv sv bound ((fv, length ps) :: fl) k (rev ps ++ sc) body = Some scout ->
+  params_ok pv sv bound ((fv, KF ks KP) :: fl) sc ps = true -> length ks = length ps ->
+  frag_stmts pv sv bound (snd (bind_scope ps ks sc ((fv, KF ks KP) :: fl))) k (fst (bind_scope ps ks sc ((fv, KF ks KP) :: fl))) body = Some scout ->
   lower_fbody (statement g) (expression g) body ctx c = Ok (bc, c2) ->
   ucovers u bc -> bound <= c -> lut_ok bound l c c2 -> E_free E c c2 ->
   let E1 := sset (fmt_var fv) (s_ncell stL) E in
-  let d := mkFdyn fv ps body sc ((fv, length ps) :: fl) g k scout bc ctx c c2 l
+  let d := mkFdyn fv ps ks body sc ((fv, KF ks KP) :: fl) g k scout bc ctx c c2 l
                   (length (SyltSem.cells st)) (length (SyltSem.clos st)) (def_env fv e st)
                   (s_ncell stL) (s_nclo stL) E1 in
-  rel pv sv bound u ((fv, length ps) :: fl) (world_add W d) sc (def_env fv e st) (def_state fv ps body e st)
-      E1 (lua_def_state stL E1 ps (fbody u d)) /\
-  (forall d', In d' (w_funs (world_add W d)) -> In (fd_var d') (fnames ((fv, length ps) :: fl))).
+  rel pv sv bound u ((fv, KF ks KP) :: fl) (world_add W d) sc (def_env fv e st) (def_state fv ps body e st)
+      E1 (lua_def_state stL E1 ps (fbody u d)).
 Proof.
-  intros Hrel Hall Hfresh Hpok Hfb Hlow Hub Hbc Hlut HEf E1 d.
-  pose proof Hrel as [Hv Hb Hi Hp Hpb HpE HpG Hwf Ht Hli HW].
+  intros (Hfs & W1 & Hs1 & Hrel0) Hfresh Hpok Hlks Hfb Hlow Hub Hbc Hlut HEf E1 d.
+  pose proof Hrel0 as [Hb Hfbd Hp Hpb HpE HpG Hwf Ht Hli HW].
+  pose proof HW as [H1 H2 H3 H4 H5 H6 H7 Hff H8 H9 H10 Hall Hlock H11 H13 H14].
+  assert (H12 : forall f ar, In (f, ar) fl ->
+            exists c0 p d', SyltSem.lookup e f = Some c0 /\ sget (fmt_var f) E = Some p /\ w_F W1 c0 p d' /\ dkind d' = ar).
+  { intros f ar Hin. destruct (Hfs f ar Hin) as (c0 & p & d' & A & B & C & D & _). exists c0, p, d'.
+    destruct Hs1 as (_ & HF & _). auto. }
   destruct (fresh_id_inv _ _ _ _ _ _ Hfresh) as (Hnin & Hnpv & Hnsv & Hfvb).
   pose proof (fresh_id_fl _ _ _ _ _ _ Hfresh) as Hnfl.
-  set (fl' := (fv, length ps) :: fl) in *.
-  assert (Hold : forall p, (p < s_ncell stL)%positive -> get_cell (lua_def_state stL E1 ps (fbody u d)) p = get_cell stL p)
+  set (fl' := (fv, KF ks KP) :: fl) in *.
+  set (stL2 := lua_def_state stL E1 ps (fbody u d)).
+  assert (Hold : forall p, (p < s_ncell stL)%positive -> get_cell stL2 p = get_cell stL p)
     by (intros p Hp'; apply lua_def_old; exact Hp').
-  assert (Hwf1 : wfenv E1 (lua_def_state stL E1 ps (fbody u d))).
+  assert (Hnc2 : s_ncell stL2 = Pos.succ (s_ncell stL)) by reflexivity.
+  assert (Hwf1 : wfenv E1 stL2).
   { pose proof (wfenv_local E stL fv VNil Hwf) as [HV Hin Ha]. constructor; [exact HV | exact Hin |].
     intros x p H. specialize (Ha x p H). cbn in *. exact Ha. }
-  assert (Hcl : forall v c0, In v sc -> SyltSem.lookup e v = Some c0 -> (c0 < length (SyltSem.cells st))%nat).
-  { intros v c0 Hvin Hlk. destruct (Hv v Hvin) as (c1 & x & p & H1 & H2 & _). rewrite Hlk in H1. inversion H1; subst. apply nth_error_Some. congruence. }
+  assert (HRc : forall c0 p, w_R W1 c0 p -> (c0 < length (SyltSem.cells st))%nat /\ (p < s_ncell stL)%positive).
+  { intros c0 p Hr. destruct (H1 c0 p Hr) as (y & A & _ & B). split; [apply nth_error_Some; congruence | exact B]. }
+  assert (HFc : forall c0 p d0, w_F W1 c0 p d0 -> (c0 < length (SyltSem.cells st))%nat /\ (p < s_ncell stL)%positive).
+  { intros c0 p d0 Hf. destruct (H6 c0 p d0 Hf) as (A & _ & B & _). split; [apply nth_error_Some; congruence | exact B]. }
+  (* the scope seen from the new environments *)
+  assert (Hsc2 : forall v, In v sc -> exists c0 p, SyltSem.lookup (def_env fv e st) v = Some c0 /\ sget (fmt_var v) E1 = Some p /\ w_R W1 c0 p).
+  { intros v Hv. destruct (H11 v Hv) as (c0 & p & A & B & C). exists c0, p.
+    assert (Hne : v <> fv) by (intros ->; contradiction).
+    unfold def_env. cbn [SyltSem.lookup]. destruct (N.eqb_spec fv v); [congruence|].
+    split; [exact A | split; [unfold E1; rewrite sget_sset_var by exact Hne; exact B | exact C]]. }
+  assert (Hfl2 : forall f ar, In (f, ar) fl' ->
+            exists c0 p d', SyltSem.lookup (def_env fv e st) f = Some c0 /\ sget (fmt_var f) E1 = Some p /\
+                            w_F (world_add W1 d) c0 p d' /\ dkind d' = ar).
+  { intros f ar [Heq|Hin].
+    - inversion Heq; subst f ar. exists (length (SyltSem.cells st)), (s_ncell stL), d.
+      unfold def_env. cbn [SyltSem.lookup]. rewrite N.eqb_refl.
+      split; [reflexivity | split; [apply sget_sset_same | split; [right; cbn [d fd_cf fd_pf]; auto | reflexivity]]].
+    - destruct (H12 f ar Hin) as (c0 & p & d' & A & B & C & D). exists c0, p, d'.
+      assert (Hne : f <> fv).
+      { intros ->. apply Hnfl. unfold fnames. change fv with (fst (fv, ar)). apply in_map. exact Hin. }
+      unfold def_env. cbn [SyltSem.lookup]. destruct (N.eqb_spec fv f); [congruence|].
+      split; [exact A | split; [unfold E1; rewrite sget_sset_var by exact Hne; exact B | split; [left; exact C | exact D]]]. }
+  assert (Htm2 : forall t p, bound <= t -> sget (fmt_var t) E1 = Some p -> not_user (world_add W1 d) p).
+  { intros t p Hbt Hq. unfold E1 in Hq. rewrite sget_sset_var in Hq by lia. destruct (H14 t p Hbt Hq) as [Hn1 Hn2].
+    split; [exact Hn1|]. intros c0 d0 [Hf|(_ & -> & _)]; [exact (Hn2 c0 d0 Hf)|].
+    cbn [d fd_pf] in Hq. pose proof (wf_alloc _ _ Hwf _ _ Hq). lia. }
   (* the static facts about the new function *)
   assert (Hstatic : fstatic pv sv bound u d).
-  { constructor; cbn [d fd_var fd_params fd_body fd_sc fd_fl fd_g fd_k fd_scout fd_code fd_c fd_c' fd_lut fd_ef fd_Ef].
+  { constructor; cbn [d fd_var fd_params fd_pk fd_body fd_sc fd_fl fd_g fd_k fd_scout fd_code fd_c fd_c' fd_lut fd_ef fd_Ef].
     - exact Hlow.
     - exact Hfb.
+    - exact Hlks.
     - exact Hpok.
-    - left. reflexivity.
-    - splits; assumption.
     - exact Hb.
-    - intros g0 [<-|Hg]; [split; assumption|]. unfold fnames in Hg. apply in_map_iff in Hg as ((f & ar) & <- & Hf).
-      destruct (wi_cover _ _ _ _ _ _ _ _ _ _ _ HW f ar Hf) as (d0 & Hd0 & <- & _).
-      destruct (wi_fun _ _ _ _ _ _ _ _ _ _ _ HW d0 Hd0) as (Hs0 & _ & _). destruct (fs_var _ _ _ _ _ Hs0) as (A & B & _). split; assumption.
+    - intros g0 [<-|Hg]; [split; assumption | apply Hfbd; exact Hg].
+    - intros g0 Hg [Heq|Hf]; [cbn [fst] in Heq; subst g0; contradiction | exact (H13 g0 Hg Hf)].
     - exact Hub.
     - exact Hbc.
     - exact Hlut.
     - intros t0 Ht0. unfold E1. rewrite sget_sset_var by lia. apply HEf. exact Ht0.
     - unfold E1. rewrite sget_sset_var by (intros Heq; apply Hnpv; symmetry; exact Heq). exact HpE.
     - apply (wf_V _ _ Hwf1).
-    - apply (wf_inj _ _ Hwf1).
-    - destruct Hp as (cp & Hlkp & _). exists cp. unfold def_env. cbn [SyltSem.lookup]. destruct (N.eqb_spec fv pv); [congruence | exact Hlkp]. }
-  (* how the old functions see the new environments *)
-  assert (HvisS : forall d0, In d0 (w_funs W) -> fvisS pv (def_env fv e st) d0).
-  { intros d0 Hd0. pose proof (Hall d0 Hd0) as Hvis0. destruct (wi_vsc _ _ _ _ _ _ _ _ _ _ _ HW d0 Hd0 Hvis0) as [Hisc Hifl].
-    apply (fvisS_same pv e _ d0 (wi_visS _ _ _ _ _ _ _ _ _ _ _ HW d0 Hd0 Hvis0)).
-    - unfold def_env. cbn [SyltSem.lookup]. destruct (N.eqb_spec fv (fd_var d0)) as [Heq|]; [|reflexivity]. exfalso. apply Hnfl. rewrite Heq. exact Hvis0.
-    - intros g0 Hg. unfold def_env. cbn [SyltSem.lookup]. destruct (N.eqb_spec fv g0) as [Heq|]; [|reflexivity]. exfalso. subst g0.
-      destruct Hg as [[Hg|Hg]|Hg]; [apply Hnin, Hisc, Hg | apply Hnfl; unfold fnames in *; apply (incl_map fst Hifl); exact Hg | apply Hnpv; exact Hg]. }
-  assert (HvisL : forall d0, In d0 (w_funs W) -> fvisL E1 d0).
-  { intros d0 Hd0. pose proof (Hall d0 Hd0) as Hvis0. destruct (wi_vsc _ _ _ _ _ _ _ _ _ _ _ HW d0 Hd0 Hvis0) as [Hisc Hifl].
-    apply (fvisL_same E _ d0 (wi_visL _ _ _ _ _ _ _ _ _ _ _ HW d0 Hd0 Hvis0)).
-    - apply sget_sset_var. intros Heq. apply Hnfl. rewrite <- Heq. exact Hvis0.
-    - intros g0 [Hg|Hg]; apply sget_sset_var; intros Heq; subst g0;
-        [apply Hnin, Hisc, Hg | apply Hnfl; unfold fnames in *; apply (incl_map fst Hifl); exact Hg]. }
-  assert (HselfS : fvisS pv (def_env fv e st) d).
-  { constructor; cbn [d fd_var fd_cf fd_ef]; [unfold def_env; cbn [SyltSem.lookup]; rewrite N.eqb_refl; reflexivity | reflexivity]. }
-  assert (HselfL : fvisL E1 d).
-  { constructor; cbn [d fd_var fd_pf fd_Ef]; [apply sget_sset_same | reflexivity]. }
+    - apply (wf_inj _ _ Hwf1). }
+  assert (Hs2 : wsub (world_add W d) (world_add W1 d)).
+  { destruct Hs1 as (A & B & C & D & F). unfold wsub, world_add. cbn.
+    split; [exact A|]. split; [intros c0 p d0 [Hf|Hf]; [left; apply B; exact Hf | right; exact Hf]|].
+    split; [intros d0 [Hd0|Hd0]; [left; apply C; exact Hd0 | right; exact Hd0]|]. split; assumption. }
   split.
-  2: { intros d' [<-|Hd']; [left; reflexivity | right; apply Hall; exact Hd']. }
+  { intros f ar [Heq|Hin].
+    - inversion Heq; subst f ar. exists (length (SyltSem.cells st)), (s_ncell stL), d.
+      unfold def_env. cbn [SyltSem.lookup]. rewrite N.eqb_refl.
+      split; [reflexivity | split; [apply sget_sset_same | split; [right; cbn [d fd_cf fd_pf]; auto | split; [reflexivity | right; reflexivity]]]].
+    - destruct (Hfs f ar Hin) as (c0 & p & d' & A & B & C & D & F). exists c0, p, d'.
+      assert (Hne : f <> fv).
+      { intros ->. apply Hnfl. unfold fnames. change fv with (fst (fv, ar)). apply in_map. exact Hin. }
+      unfold def_env. cbn [SyltSem.lookup]. destruct (N.eqb_spec fv f); [congruence|].
+      split; [exact A | split; [unfold E1; rewrite sget_sset_var by exact Hne; exact B | split; [left; exact C | split; [exact D | left; exact F]]]]. }
+  exists (world_add W1 d). split; [exact Hs2|].
   constructor.
-  - intros w Hw. destruct (Hv w Hw) as (cc & x & p & H1 & H2 & H3 & H4).
-    assert (Hne : w <> fv) by (intros ->; contradiction).
-    exists cc, x, p. unfold def_env, def_state. cbn [SyltSem.lookup SyltSem.cells]. destruct (N.eqb_spec fv w); [congruence|].
-    splits; [exact H1 | apply nth_error_app_old; exact H2 | unfold E1; rewrite sget_sset_var by exact Hne; exact H3 |].
-    rewrite Hold; [exact H4 | eapply wf_alloc; eassumption].
   - exact Hb.
-  - intros v1 v2 cc H1 H2. unfold def_env. cbn [SyltSem.lookup].
-    destruct (N.eqb_spec fv v1) as [->|]; [contradiction|]. destruct (N.eqb_spec fv v2) as [->|]; [contradiction|].
-    apply Hi; assumption.
-  - destruct Hp as (cp & Hlkp & Hnthp & Hdist).
-    exists cp. unfold def_env, def_state. cbn [SyltSem.lookup SyltSem.cells]. destruct (N.eqb_spec fv pv); [congruence|].
-    splits; [exact Hlkp | apply nth_error_app_old; exact Hnthp |].
-    intros w Hw. destruct (N.eqb_spec fv w) as [->|]; [contradiction|]. apply Hdist. exact Hw.
+  - intros g0 [<-|Hg]; [split; assumption | apply Hfbd; exact Hg].
+  - unfold def_env. cbn [SyltSem.lookup world_add w_pc]. destruct (N.eqb_spec fv pv); [congruence | exact Hp].
   - exact Hpb.
   - unfold E1. rewrite sget_sset_var by (intros Heq; apply Hnpv; symmetry; exact Heq). exact HpE.
   - eapply glob_frame; [|exact HpG]. reflexivity.
@@ -143,65 +156,60 @@ Proof.
   - exact Ht.
   - apply linv_lua_def. exact Hli.
   - (* the world *)
-    constructor; cbn [world_add w_IS w_IL w_CS w_CL w_funs].
-    + intros c0 x [Hx|[-> ->]]; unfold def_state; cbn [SyltSem.cells].
-      * pose proof (wi_IS _ _ _ _ _ _ _ _ _ _ _ HW c0 x Hx). rewrite nth_error_app1; [assumption | apply nth_error_Some; congruence].
-      * cbn [d fd_cf fd_ci]. apply nth_error_app_new.
-    + intros p lv [Hq|[-> ->]].
-      * destruct (wi_IL _ _ _ _ _ _ _ _ _ _ _ HW p lv Hq) as [Ha Hlt]. split; [rewrite Hold by exact Hlt; exact Ha|].
-        unfold lua_def_state, set_cell, alloc_closure, alloc_cell. cbn [snd s_ncell]. lia.
-      * cbn [d fd_pf fd_fid]. split; [unfold lua_def_state; apply get_cell_set_same|].
-        unfold lua_def_state, set_cell, alloc_closure, alloc_cell. cbn [snd s_ncell]. lia.
-    + intros ci cl Hx. pose proof (wi_CS _ _ _ _ _ _ _ _ _ _ _ HW ci cl Hx) as Hn0.
-      unfold def_state. cbn [SyltSem.clos]. rewrite nth_error_app1; [exact Hn0 | apply nth_error_Some; congruence].
-    + intros fid c0 Hx. destruct (wi_CL _ _ _ _ _ _ _ _ _ _ _ HW fid c0 Hx) as [A B].
-      unfold lua_def_state, set_cell, alloc_closure, alloc_cell. cbn [snd s_clos s_nclo]. rewrite pget_pset_other by lia. split; [exact A | lia].
-    + intros d0 [<-|Hd0]; [left; reflexivity | right; apply Hall; exact Hd0].
-    + intros d0 [<-|Hd0].
-      * cbn [d fd_ci fd_params fd_body fd_ef fd_fid fd_Ef]. splits.
-        -- unfold def_state. cbn [SyltSem.clos]. apply nth_error_app_new.
-        -- unfold lua_def_state, set_cell, alloc_closure, alloc_cell. cbn [snd s_clos s_nclo]. apply pget_pset_same.
-        -- apply (wf_alloc _ _ Hwf1).
-        -- unfold lua_def_state, set_cell, alloc_closure, alloc_cell. cbn [snd s_nclo]. lia.
-        -- unfold def_state. cbn [SyltSem.clos]. rewrite app_length. cbn [length]. lia.
-      * destruct (wi_clos _ _ _ _ _ _ _ _ _ _ _ HW d0 Hd0) as (A & B & C & D & F).
-        splits.
-        -- unfold def_state. cbn [SyltSem.clos]. rewrite nth_error_app1 by exact F. exact A.
-        -- unfold lua_def_state, set_cell, alloc_closure, alloc_cell. cbn [snd s_clos s_nclo]. rewrite pget_pset_other by lia. exact B.
-        -- intros x p Hx. specialize (C x p Hx). unfold lua_def_state, set_cell, alloc_closure, alloc_cell. cbn [snd s_ncell]. lia.
-        -- unfold lua_def_state, set_cell, alloc_closure, alloc_cell. cbn [snd s_nclo]. lia.
-        -- unfold def_state. cbn [SyltSem.clos]. rewrite app_length. lia.
-    + intros d0 [<-|Hd0].
-      * splits; [exact Hstatic | right; split; reflexivity | right; split; reflexivity].
-      * destruct (wi_fun _ _ _ _ _ _ _ _ _ _ _ HW d0 Hd0) as (A & B & C). splits; [exact A | left; exact B | left; exact C].
-    + intros d1 d2 [<-|Hd1] [<-|Hd2] Hvis12.
-      * splits; [exact HselfS | exact HselfL | apply incl_refl | apply incl_refl].
-      * cbn [d fd_fl fd_ef fd_Ef fd_sc] in *. pose proof (Hall d2 Hd2) as Hvis2.
-        destruct (wi_vsc _ _ _ _ _ _ _ _ _ _ _ HW d2 Hd2 Hvis2) as [Hisc Hifl].
-        splits; [apply HvisS; exact Hd2 | apply HvisL; exact Hd2 | exact Hisc | apply incl_tl; exact Hifl].
-      * exfalso. pose proof (Hall d1 Hd1) as Hvis1. destruct (wi_vsc _ _ _ _ _ _ _ _ _ _ _ HW d1 Hd1 Hvis1) as [_ Hifl].
-        apply Hnfl. cbn [d fd_var] in Hvis12. unfold fnames in *. apply (incl_map fst Hifl). exact Hvis12.
-      * apply (wi_inter _ _ _ _ _ _ _ _ _ _ _ HW d1 d2 Hd1 Hd2 Hvis12).
-    + intros f ar [Heq|Hf].
-      * inversion Heq; subst f ar. exists d. splits; [left; reflexivity | reflexivity | reflexivity].
-      * destruct (wi_cover _ _ _ _ _ _ _ _ _ _ _ HW f ar Hf) as (d0 & A & B & C). exists d0. splits; [right; exact A | exact B | exact C].
-    + intros d1 d2 [<-|Hd1] [<-|Hd2] Heq; [reflexivity | | |].
-      * exfalso. apply Hnfl. cbn [d fd_var] in Heq. rewrite Heq. apply Hall. exact Hd2.
-      * exfalso. apply Hnfl. cbn [d fd_var] in Heq. rewrite <- Heq. apply Hall. exact Hd1.
-      * apply (wi_uniq _ _ _ _ _ _ _ _ _ _ _ HW d1 d2 Hd1 Hd2 Heq).
-    + intros v c0 x Hvin Hlk [Hx|[-> _]]; unfold def_env in Hlk; cbn [SyltSem.lookup] in Hlk;
-        (destruct (N.eqb_spec fv v) as [->|]; [contradiction|]).
-      * exact (wi_scS _ _ _ _ _ _ _ _ _ _ _ HW v c0 x Hvin Hlk Hx).
-      * cbn [d fd_cf] in Hlk. specialize (Hcl v _ Hvin Hlk). lia.
-    + intros v Hvin [Heq|Hf]; [cbn [fst] in Heq; subst v; contradiction | exact (wi_scfl _ _ _ _ _ _ _ _ _ _ _ HW v Hvin Hf)].
-    + intros v p lv Hvin Hq [Hx|[-> _]]; unfold E1 in Hq; rewrite sget_sset_var in Hq by (intros ->; contradiction).
-      * exact (wi_lprot _ _ _ _ _ _ _ _ _ _ _ HW v p lv Hvin Hq Hx).
-      * cbn [d fd_pf] in Hq. pose proof (wf_alloc _ _ Hwf _ _ Hq). lia.
-    + intros d0 [<-|Hd0] _; [exact HselfS | apply HvisS; exact Hd0].
-    + intros d0 [<-|Hd0] _; [exact HselfL | apply HvisL; exact Hd0].
-    + intros d0 [<-|Hd0] _.
-      * cbn [d fd_sc fd_fl]. split; apply incl_refl.
-      * destruct (wi_vsc _ _ _ _ _ _ _ _ _ _ _ HW d0 Hd0 (Hall d0 Hd0)) as [A B]. split; [exact A | apply incl_tl; exact B].
+    constructor; cbn [world_add w_R w_F w_D w_P w_pc].
+    + intros c0 p Hr. destruct (H1 c0 p Hr) as (y & A & B & C). exists y.
+      split; [unfold def_state; cbn [SyltSem.cells]; apply nth_error_app_old; exact A|].
+      split; [rewrite Hold by exact C; exact B | rewrite Hnc2; lia].
+    + exact H2.
+    + exact H3.
+    + intros c0 p Hr. destruct (H4 c0 p Hr) as [A B]. destruct (HRc _ _ Hr) as [Hc0 Hp0]. split.
+      * intros p' d0 [Hf|(-> & _ & _)]; [exact (A p' d0 Hf) | cbn [d fd_cf] in Hc0; lia].
+      * intros c' d0 [Hf|(_ & -> & _)]; [exact (B c' d0 Hf) | cbn [d fd_pf] in Hp0; lia].
+    + exact H5.
+    + intros c0 p d0 [Hf|(-> & -> & ->)].
+      * destruct (H6 c0 p d0 Hf) as (A & B & C & D).
+        split; [unfold def_state; cbn [SyltSem.cells]; apply nth_error_app_old; exact A|].
+        split; [rewrite Hold by exact C; exact B|]. split; [rewrite Hnc2; lia | left; exact D].
+      * cbn [d fd_cf fd_pf fd_ci fd_fid].
+        split; [unfold def_state; cbn [SyltSem.cells]; apply nth_error_app_new|].
+        split; [unfold stL2, lua_def_state; apply get_cell_set_same|]. split; [rewrite Hnc2; lia | right; reflexivity].
+    + intros c0 p d0 lv [Hf|(_ & -> & _)]; [exact (H7 c0 p d0 lv Hf)|].
+      cbn [d fd_pf]. intros Hq. destruct (H8 _ _ Hq). lia.
+    + intros c0 p d0 p' d0' [Hf|(-> & -> & ->)] [Hf'|(Hc' & Hp' & Hd')].
+      * exact (Hff c0 p d0 p' d0' Hf Hf').
+      * subst c0. destruct (HFc _ _ _ Hf). cbn [d fd_cf] in *. lia.
+      * destruct (HFc _ _ _ Hf'). cbn [d fd_cf] in *. lia.
+      * subst. split; reflexivity.
+    + intros p lv Hq. destruct (H8 p lv Hq) as [A B]. split; [rewrite Hold by exact B; exact A | rewrite Hnc2; lia].
+    + unfold def_state. cbn [SyltSem.cells]. apply nth_error_app_old. exact H9.
+    + intros d0 [Hd0| ->].
+      * destruct (H10 d0 Hd0) as (A & B & C & D & F & G & G' & Hsc & Hfl & Htm).
+        split; [exact A|]. split; [unfold def_state; cbn [SyltSem.clos]; rewrite nth_error_app1 by exact G; exact B|].
+        split.
+        { unfold stL2, lua_def_state, set_cell, alloc_closure, alloc_cell. cbn [snd s_clos s_nclo].
+          rewrite pget_pset_other; [exact C|]. intros Heq. rewrite F, Hlock in Heq. apply fid_of_inj in Heq. lia. }
+        split; [intros x p Hx; specialize (D x p Hx); rewrite Hnc2; lia|].
+        split; [exact F|]. split; [unfold def_state; cbn [SyltSem.clos]; rewrite app_length; lia|]. split; [exact G'|].
+        split; [exact Hsc|].
+        split; [intros f ar Hin; destruct (Hfl f ar Hin) as (c0 & p & d' & X & Y & Z & T); exists c0, p, d'; auto|].
+        intros t p Hbt Hq. destruct (Htm t p Hbt Hq) as [Hn1 Hn2]. split; [exact Hn1|].
+        intros c0 d1 [Hf|(_ & -> & _)]; [exact (Hn2 c0 d1 Hf)|]. specialize (D _ _ Hq). cbn [d fd_pf] in D. lia.
+      * split; [exact Hstatic|]. cbn [d fd_ci fd_params fd_body fd_ef fd_fid fd_Ef fd_sc fd_fl].
+        split; [unfold def_state; cbn [SyltSem.clos]; apply nth_error_app_new|].
+        split; [unfold stL2, lua_def_state, set_cell, alloc_closure, alloc_cell; cbn [snd s_clos s_nclo]; apply pget_pset_same|].
+        split; [apply (wf_alloc _ _ Hwf1)|].
+        split; [exact Hlock|]. split; [unfold def_state; cbn [SyltSem.clos]; rewrite app_length; cbn [length]; lia|].
+        split; [unfold def_env; cbn [SyltSem.lookup]; destruct (N.eqb_spec fv pv); [congruence | exact Hp]|].
+        split; [exact Hsc2|]. split; [exact Hfl2 | exact Htm2].
+    + intros ci Hci. unfold def_state in Hci. cbn [SyltSem.clos] in Hci. rewrite app_length in Hci. cbn [length] in Hci.
+      destruct (Nat.eq_dec ci (length (SyltSem.clos st))) as [->|Hne].
+      * exists d. split; [right; reflexivity | reflexivity].
+      * destruct (Hall ci ltac:(lia)) as (d0 & A & B). exists d0. split; [left; exact A | exact B].
+    + unfold stL2, lua_def_state, set_cell, alloc_closure, alloc_cell, def_state. cbn [snd s_nclo SyltSem.clos].
+      rewrite app_length. cbn [length]. rewrite Nat.add_1_r, fid_of_succ, Hlock. reflexivity.
+    + exact Hsc2.
+    + intros v Hvin [Heq|Hf]; [cbn [fst] in Heq; subst v; contradiction | exact (H13 v Hvin Hf)].
+    + exact Htm2.
 Qed.
 
 End DefFun.
@@ -237,7 +245,7 @@ Variable pv : N.
 Variable sv : N.
 Variable bound : N.
 Variable u : counts.
-Variable fl : list (N * nat).
+Variable fl : list (N * kind).
 Variable W : world.
 
 Notation rel := (rel pv sv bound u fl W).
@@ -247,13 +255,14 @@ Notation winv := (winv pv sv bound u fl W).
 Lemma rel_lookup_ext sc e e' st E stL :
   (forall v, SyltSem.lookup e' v = SyltSem.lookup e v) -> rel sc e st E stL -> rel sc e' st E stL.
 Proof.
-  intros Hl [Hv Hb Hi Hp Hpb HpE HpG Hwf Ht Hli HW]. constructor; auto.
-  - intros v Hin. destruct (Hv v Hin) as (c & x & p & H1 & H2 & H3 & H4). exists c, x, p. rewrite Hl. auto.
-  - intros v1 v2 c. rewrite !Hl. apply Hi.
-  - destruct Hp as (c & H1 & H2 & H3). exists c. rewrite Hl. splits; auto. intros v Hin. rewrite Hl. apply H3. exact Hin.
-  - destruct HW as [H1 H2 HCS HCL Hav H3 H4 H5 H6 H7 H8 H9 H10 H11 H12 H13]. constructor; auto.
-    + intros v c x Hin. rewrite Hl. apply H8. exact Hin.
-    + intros d Hd Hvis. destruct (H11 d Hd Hvis) as [Ha Hb']. constructor; [rewrite Hl; exact Ha | intros g Hg; rewrite Hl; apply Hb'; exact Hg].
+  intros Hl (Hfs & W1 & Hs1 & [Hb Hfb Hp Hpb HpE HpG Hwf Ht Hli HW]).
+  split; [intros f ar Hin; destruct (Hfs f ar Hin) as (c & p & d & A & B); exists c, p, d; rewrite Hl; auto|].
+  exists W1. split; [exact Hs1|]. constructor; auto.
+  - rewrite Hl. exact Hp.
+  - apply (winv_env pv sv bound u fl W1 sc e st E stL fl sc e' E HW).
+    + intros v Hv. destruct (wi_sc _ _ _ _ _ _ _ _ _ _ _ HW v Hv) as (c & p & A & B & C). exists c, p. rewrite Hl. auto.
+    + apply (wi_scfl _ _ _ _ _ _ _ _ _ _ _ HW).
+    + apply (wi_temps _ _ _ _ _ _ _ _ _ _ _ HW).
 Qed.
 
 (* a new user variable with a value on both sides (a parameter) *)
@@ -261,47 +270,7 @@ Lemma rel_define_var sc e st E stL var x lv :
   rel sc e st E stL -> fresh_id pv sv bound fl sc var = true -> vrel x lv ->
   rel (var :: sc) ((var, length (SyltSem.cells st)) :: e) (s_alloc st x)
       (sset (fmt_var var) (s_ncell stL) E) (snd (alloc_cell stL lv)).
-Proof.
-  intros Hrel Hfresh Hxl. destruct (fresh_id_inv _ _ _ _ _ _ Hfresh) as (Hnin & Hnpv & Hnsv & Hvb).
-  pose proof (fresh_id_fl _ _ _ _ _ _ Hfresh) as Hnfl.
-  pose proof Hrel as [Hv Hb Hi Hp Hpb HpE HpG Hwf Ht Hli HW].
-  constructor.
-  - intros w [<-|Hin].
-    + exists (length (SyltSem.cells st)), x, (s_ncell stL).
-      cbn [SyltSem.lookup]. rewrite N.eqb_refl. splits; [reflexivity | apply nth_error_app_new | apply sget_sset_same |].
-      rewrite get_cell_alloc_new. exact Hxl.
-    + destruct (Hv w Hin) as (cc & y & p & H1 & H2 & H3 & H4).
-      assert (Hne : w <> var) by (intros ->; contradiction).
-      exists cc, y, p. cbn [SyltSem.lookup]. destruct (N.eqb_spec var w); [congruence|].
-      splits; [exact H1 | apply nth_error_app_old; exact H2 | rewrite sget_sset_var by exact Hne; exact H3 |].
-      rewrite get_cell_alloc_old; [exact H4 | eapply wf_alloc; eassumption].
-  - intros w [<-|Hin]; [split; assumption | apply Hb; exact Hin].
-  - assert (Hold : forall w cc, In w sc -> SyltSem.lookup e w = Some cc -> (cc < length (SyltSem.cells st))%nat).
-    { intros w cc Hin Hlk. destruct (Hv w Hin) as (cc' & y & p & H1 & H2 & _). rewrite Hlk in H1. inversion H1; subst.
-      apply nth_error_Some. congruence. }
-    intros v1 v2 cc H1 H2. cbn [SyltSem.lookup].
-    destruct H1 as [<-|H1]; destruct H2 as [<-|H2]; rewrite ?N.eqb_refl.
-    + auto.
-    + destruct (N.eqb_spec var v2); [auto|]. intros Ha Hb2. inversion Ha; subst.
-      specialize (Hold v2 _ H2 Hb2). lia.
-    + destruct (N.eqb_spec var v1); [auto|]. intros Ha Hb2. inversion Hb2; subst.
-      specialize (Hold v1 _ H1 Ha). lia.
-    + destruct (N.eqb_spec var v1) as [->|]; [contradiction|]. destruct (N.eqb_spec var v2) as [->|]; [contradiction|].
-      apply Hi; assumption.
-  - destruct Hp as (cp & Hlkp & Hnthp & Hdist).
-    exists cp. cbn [SyltSem.lookup]. destruct (N.eqb_spec var pv); [congruence|].
-    splits; [exact Hlkp | apply nth_error_app_old; exact Hnthp |].
-    intros w [<-|Hin]; rewrite ?N.eqb_refl.
-    + intros Heq. inversion Heq; subst. assert (length (SyltSem.cells st) < length (SyltSem.cells st))%nat by (apply nth_error_Some; congruence). lia.
-    + destruct (N.eqb_spec var w) as [->|]; [contradiction|]. apply Hdist. exact Hin.
-  - exact Hpb.
-  - rewrite sget_sset_var by (intros Heq; apply Hnpv; symmetry; exact Heq). exact HpE.
-  - eapply glob_frame; [|exact HpG]. reflexivity.
-  - apply wfenv_local. exact Hwf.
-  - exact Ht.
-  - apply linv_alloc_cell. exact Hli.
-  - apply winv_define_user; assumption.
-Qed.
+Proof. apply rel_define_user. Qed.
 
 (* ------------------------------------------------------------------ the parameters of a call *)
 
@@ -316,39 +285,189 @@ Proof.
   - intros q [<-|Hq]; [auto|]. destruct (Hall q Hq) as (Hn & H2 & H3 & H4). splits; auto. intros Hin. apply Hn. right. exact Hin.
 Qed.
 
-Lemma bind_params : forall ps avs lvs sc e st E stL,
-  rel sc e st E stL -> Forall2 vrel avs lvs -> length ps = length avs ->
+End Sim.
+
+(* ------------------------------------------------------------------ binding the parameters: plain values join the
+   user variables, closures the callable functions *)
+Section Bind.
+Variable pv : N.
+Variable sv : N.
+Variable bound : N.
+Variable u : counts.
+
+(* the world with the two cells of a function parameter that holds the closure d *)
+Definition world_addF (W0 : world) (c : nat) (p : positive) (d : fdyn) : world :=
+  mkWorld (w_R W0) (fun c' p' d' => w_F W0 c' p' d' \/ (c' = c /\ p' = p /\ d' = d)) (w_D W0) (w_P W0) (w_pc W0).
+
+Lemma wsub_addF W0 c p d : wsub W0 (world_addF W0 c p d).
+Proof. unfold wsub, world_addF. cbn. repeat split; auto. Qed.
+
+Lemma rel_define_fparam fl W sc e st E stL var d :
+  rel pv sv bound u fl W sc e st E stL -> fresh_id pv sv bound fl sc var = true -> w_D W d ->
+  rel pv sv bound u ((var, dkind d) :: fl) (world_addF W (length (SyltSem.cells st)) (s_ncell stL) d) sc
+      ((var, length (SyltSem.cells st)) :: e) (s_alloc st (SyltSem.SClos (fd_ci d)))
+      (sset (fmt_var var) (s_ncell stL) E) (snd (alloc_cell stL (VFun (fd_fid d)))).
+Proof.
+  intros (Hfs & W1 & Hs1 & [Hb Hfb Hp Hpb HpE HpG Hwf Ht Hli HW]) Hfresh Hd.
+  destruct (fresh_id_inv _ _ _ _ _ _ Hfresh) as (Hnin & Hnpv & Hnsv & Hvb). pose proof (fresh_id_fl _ _ _ _ _ _ Hfresh) as Hnfl.
+  pose proof HW as [H1 H2 H3 H4 H5 H6 H7 Hff H8 H9 H10 Hall Hlock H11 H13 H14].
+  assert (Hd1 : w_D W1 d) by (destruct Hs1 as (_ & _ & HD & _); apply HD; exact Hd).
+  set (c0 := length (SyltSem.cells st)). set (p0 := s_ncell stL).
+  assert (HRc : forall c p, w_R W1 c p -> (c < c0)%nat /\ (p < p0)%positive).
+  { intros c p Hr. destruct (H1 c p Hr) as (y & A & _ & B). split; [apply nth_error_Some; congruence | exact B]. }
+  assert (HFc : forall c p d', w_F W1 c p d' -> (c < c0)%nat /\ (p < p0)%positive).
+  { intros c p d' Hf. destruct (H6 c p d' Hf) as (A & _ & B & _). split; [apply nth_error_Some; congruence | exact B]. }
+  split.
+  { intros f K [Heq|Hin].
+    - inversion Heq; subst f K. exists c0, p0, d. cbn [SyltSem.lookup]. rewrite N.eqb_refl.
+      split; [reflexivity | split; [apply sget_sset_same | split; [right; auto | split; [reflexivity | exact Hd]]]].
+    - destruct (Hfs f K Hin) as (c & p & d' & A & B & C & D & F). exists c, p, d'.
+      assert (Hne : f <> var).
+      { intros ->. apply Hnfl. unfold fnames. apply in_map_iff. eexists. split; [|exact Hin]. reflexivity. }
+      cbn [SyltSem.lookup]. destruct (N.eqb_spec var f); [congruence|].
+      split; [exact A | split; [rewrite sget_sset_var by exact Hne; exact B | split; [left; exact C | split; assumption]]]. }
+  exists (world_addF W1 c0 p0 d). split.
+  { destruct Hs1 as (A & B & C & D & F). unfold wsub, world_addF. cbn.
+    split; [exact A|]. split; [intros c p d' [Hf|Hf]; [left; apply B; exact Hf | right; exact Hf]|]. split; [exact C | split; assumption]. }
+  constructor.
+  - exact Hb.
+  - intros g0 [<-|Hg]; [split; assumption | apply Hfb; exact Hg].
+  - cbn [SyltSem.lookup world_addF w_pc]. destruct (N.eqb_spec var pv); [congruence | exact Hp].
+  - exact Hpb.
+  - rewrite sget_sset_var by (intros Heq; apply Hnpv; symmetry; exact Heq). exact HpE.
+  - eapply glob_frame; [|exact HpG]. reflexivity.
+  - apply wfenv_local. exact Hwf.
+  - exact Ht.
+  - apply linv_alloc_cell. exact Hli.
+  - constructor; cbn [world_addF w_R w_F w_D w_P w_pc].
+    + intros c p Hr. destruct (H1 c p Hr) as (y & A & B & C). exists y. split; [apply nth_error_app_old; exact A|].
+      split; [rewrite get_cell_alloc_old; assumption | cbn; lia].
+    + exact H2.
+    + exact H3.
+    + intros c p Hr. destruct (H4 c p Hr) as [A B]. destruct (HRc _ _ Hr). split.
+      * intros p' d' [Hf|(-> & _ & _)]; [exact (A p' d' Hf) | unfold c0 in *; lia].
+      * intros c' d' [Hf|(_ & -> & _)]; [exact (B c' d' Hf) | unfold p0 in *; lia].
+    + exact H5.
+    + intros c p d' [Hf|(-> & -> & ->)].
+      * destruct (H6 c p d' Hf) as (A & B & C & D).
+        split; [apply nth_error_app_old; exact A|]. split; [rewrite get_cell_alloc_old; assumption|]. split; [cbn; lia | exact D].
+      * split; [apply nth_error_app_new|]. split; [apply get_cell_alloc_new|]. split; [cbn; unfold p0; lia | exact Hd1].
+    + intros c p d' lv [Hf|(_ & -> & _)]; [exact (H7 c p d' lv Hf)|]. intros Hq. destruct (H8 _ _ Hq). unfold p0 in *. lia.
+    + intros c p d1 p' d2 [Hf|(-> & -> & ->)] [Hf'|(Hc' & Hp' & Hd')].
+      * exact (Hff c p d1 p' d2 Hf Hf').
+      * subst c. destruct (HFc _ _ _ Hf). lia.
+      * destruct (HFc _ _ _ Hf'). lia.
+      * subst. split; reflexivity.
+    + intros p lv Hq. destruct (H8 p lv Hq) as [A B]. split; [rewrite get_cell_alloc_old; assumption | cbn; lia].
+    + apply nth_error_app_old. exact H9.
+    + intros d0 Hd0. destruct (H10 d0 Hd0) as (A & B & C & D & F & G & G' & Hsc & Hfl & Htm).
+      split; [exact A|]. split; [exact B|]. split; [exact C|]. split; [intros y p Hy; specialize (D y p Hy); cbn; lia|].
+      split; [exact F|]. split; [exact G|]. split; [exact G'|]. split; [exact Hsc|].
+      split; [intros f K Hin; destruct (Hfl f K Hin) as (c & p & d' & X & Y & Z & T); exists c, p, d'; auto|].
+      intros t p Hbt Hq. destruct (Htm t p Hbt Hq) as [Hn1 Hn2]. split; [exact Hn1|].
+      intros c d1 [Hf|(_ & -> & _)]; [exact (Hn2 c d1 Hf)|]. specialize (D _ _ Hq). unfold p0 in *. lia.
+    + exact Hall.
+    + exact Hlock.
+    + intros w Hin. destruct (H11 w Hin) as (c & p & A & B & C). exists c, p.
+      assert (Hne : w <> var) by (intros ->; contradiction).
+      cbn [SyltSem.lookup]. destruct (N.eqb_spec var w); [congruence|].
+      split; [exact A | split; [rewrite sget_sset_var by exact Hne; exact B | exact C]].
+    + intros w Hin [Heq|Hf]; [cbn [fst] in Heq; subst w; contradiction | exact (H13 w Hin Hf)].
+    + intros t p Hbt Hq. rewrite sget_sset_var in Hq by lia. destruct (H14 t p Hbt Hq) as [Hn1 Hn2]. split; [exact Hn1|].
+      intros c d1 [Hf|(_ & -> & _)]; [exact (Hn2 c d1 Hf)|]. pose proof (wf_alloc _ _ Hwf _ _ Hq). unfold p0 in *. lia.
+Qed.
+
+(* the names a list of parameters must avoid: fewer names, still fresh *)
+Lemma fresh_id_anti fl sc fl2 sc2 v :
+  fresh_id pv sv bound fl sc v = true ->
+  (forall x, In x sc2 \/ In x (fnames fl2) -> In x sc \/ In x (fnames fl)) ->
+  fresh_id pv sv bound fl2 sc2 v = true.
+Proof.
+  intros Hf Hi. destruct (fresh_id_inv _ _ _ _ _ _ Hf) as (A & B & C & D). pose proof (fresh_id_fl _ _ _ _ _ _ Hf) as F.
+  unfold fresh_id.
+  assert (Hm : forall l, ~ In v l -> memN v l = false).
+  { intros l Hn. unfold memN. destruct (existsb (N.eqb v) l) eqn:He; [|reflexivity].
+    apply existsb_exists in He as (y & Hy & Heq). apply N.eqb_eq in Heq. subst y. contradiction. }
+  rewrite (Hm sc2), (Hm (map fst fl2)).
+  - destruct (N.eqb_spec v pv); [contradiction|]. destruct (N.eqb_spec v sv); [contradiction|].
+    destruct (N.ltb_spec v bound); [reflexivity | lia].
+  - intros Hin. destruct (Hi v (or_intror Hin)); contradiction.
+  - intros Hin. destruct (Hi v (or_introl Hin)); contradiction.
+Qed.
+
+Lemma params_ok_anti : forall ps fl sc fl2 sc2,
   params_ok pv sv bound fl sc ps = true ->
-  exists cs st1 E1 stL1,
+  (forall x, In x sc2 \/ In x (fnames fl2) -> In x sc \/ In x (fnames fl)) ->
+  params_ok pv sv bound fl2 sc2 ps = true.
+Proof.
+  induction ps as [|p ps IH]; intros fl sc fl2 sc2 H Hi; [reflexivity|].
+  cbn [params_ok] in *. apply andb_prop in H as [Hf Hr]. apply andb_true_intro. split.
+  - eapply fresh_id_anti; eassumption.
+  - eapply IH; [exact Hr|]. intros x [[<-|Hx]|Hx]; [left; left; reflexivity | |].
+    + destruct (Hi x (or_introl Hx)); [left; right; assumption | right; assumption].
+    + destruct (Hi x (or_intror Hx)); [left; right; assumption | right; assumption].
+Qed.
+
+Lemma bind_params : forall ps ks avs lvs fl W sc e st E stL,
+  rel pv sv bound u fl W sc e st E stL -> Forall3 (arel W) ks avs lvs -> length ps = length ks ->
+  params_ok pv sv bound fl sc ps = true ->
+  exists W1 cs st1 E1 stL1,
     SyltSem.mapM SyltSem.new_cell avs st = (SyltSem.RVal cs, st1) /\
     bind_locals E (map fmt_var ps) lvs stL = (E1, stL1) /\
-    rel (rev ps ++ sc) (rev (combine ps cs) ++ e) st1 E1 stL1 /\
+    wsub W W1 /\
+    rel pv sv bound u (snd (bind_scope ps ks sc fl)) W1 (fst (bind_scope ps ks sc fl)) (rev (combine ps cs) ++ e) st1 E1 stL1 /\
     length cs = length ps /\
     (s_ncell stL <= s_ncell stL1)%positive /\
     (forall t, bound <= t -> sget (fmt_var t) E1 = sget (fmt_var t) E) /\
     (forall v, ~ In v ps -> sget (fmt_var v) E1 = sget (fmt_var v) E).
 Proof.
-  induction ps as [|p ps IH]; intros avs lvs sc e st E stL Hrel Hvs Hlen Hok.
-  - destruct avs; [|discriminate Hlen]. inversion Hvs; subst.
-    exists [], st, E, stL. splits; try reflexivity; auto; try lia.
-  - destruct avs as [|av avs]; [discriminate Hlen|]. inversion Hvs as [|? lv ? lvs' Hv Hvs']; subst.
+  induction ps as [|p ps IH]; intros ks avs lvs fl W sc e st E stL Hrel Hvs Hlen Hok.
+  - destruct ks; [|discriminate Hlen]. inversion Hvs; subst.
+    exists W, [], st, E, stL. splits; try reflexivity; auto; try lia. apply wsub_refl.
+  - destruct ks as [|K ks]; [discriminate Hlen|]. inversion Hvs as [|? av lv ? avs' lvs' Hv Hvs']; subst.
     cbn [params_ok] in Hok. apply andb_prop in Hok as [Hf Hr].
-    pose proof (rel_define_var sc e st E stL p av lv Hrel Hf Hv) as Hrel1.
-    destruct (IH avs lvs' (p :: sc) ((p, length (SyltSem.cells st)) :: e) (s_alloc st av)
-                 (sset (fmt_var p) (s_ncell stL) E) (snd (alloc_cell stL lv)) Hrel1 Hvs' ltac:(cbn in Hlen; lia) Hr)
-      as (cs & st1 & E1 & stL1 & Hm & Hbl & Hrel2 & Hlc & Hn & Ht & Hu).
     destruct (fresh_id_inv _ _ _ _ _ _ Hf) as (_ & _ & _ & Hpb).
-    exists (length (SyltSem.cells st) :: cs), st1, E1, stL1. splits.
-    + cbn [SyltSem.mapM]. unfold SyltSem.bind at 1. rewrite new_cell_eq. unfold SyltSem.bind at 1. rewrite Hm. reflexivity.
-    + cbn [map bind_locals]. unfold alloc_cell at 1. cbn [first tl]. exact Hbl.
-    + cbn [rev combine]. rewrite <- !app_assoc. exact Hrel2.
-    + cbn [length]. lia.
-    + cbn [alloc_cell snd s_ncell] in Hn. lia.
-    + intros t Hbt. rewrite (Ht t Hbt). apply sget_sset_var. lia.
-    + intros v Hnv. rewrite Hu by (intros Hin; apply Hnv; right; exact Hin). apply sget_sset_var. intros ->. apply Hnv. left. reflexivity.
+    destruct K as [|ka kr].
+    + (* a plain parameter *)
+      cbn [arel] in Hv.
+      pose proof (rel_define_user pv sv bound u fl W sc e st E stL p av lv Hrel Hf Hv) as Hrel1.
+      destruct (IH ks avs' lvs' fl W (p :: sc) ((p, length (SyltSem.cells st)) :: e) (s_alloc st av)
+                   (sset (fmt_var p) (s_ncell stL) E) (snd (alloc_cell stL lv)) Hrel1 Hvs' ltac:(cbn in Hlen; lia) Hr)
+        as (W1 & cs & st1 & E1 & stL1 & Hm & Hbl & Hw & Hrel2 & Hlc & Hn & Ht & Hu).
+      exists W1, (length (SyltSem.cells st) :: cs), st1, E1, stL1. splits.
+      * cbn [SyltSem.mapM]. unfold SyltSem.bind at 1. rewrite new_cell_eq. unfold SyltSem.bind at 1. rewrite Hm. reflexivity.
+      * cbn [map bind_locals]. unfold alloc_cell at 1. cbn [first tl]. exact Hbl.
+      * exact Hw.
+      * cbn [rev combine bind_scope]. rewrite <- !app_assoc. exact Hrel2.
+      * cbn [length]. lia.
+      * cbn [alloc_cell snd s_ncell] in Hn. lia.
+      * intros t Hbt. rewrite (Ht t Hbt). apply sget_sset_var. lia.
+      * intros v Hnv. rewrite Hu by (intros Hin; apply Hnv; right; exact Hin). apply sget_sset_var. intros ->. apply Hnv. left. reflexivity.
+    + (* a function parameter *)
+      cbn [arel] in Hv. destruct Hv as (d & Hd & Hdk & -> & ->).
+      pose proof (rel_define_fparam fl W sc e st E stL p d Hrel Hf Hd) as Hrel1. rewrite Hdk in Hrel1.
+      set (W0 := world_addF W (length (SyltSem.cells st)) (s_ncell stL) d) in *.
+      assert (Hvs0 : Forall3 (arel W0) ks avs' lvs').
+      { clear - Hvs'. induction Hvs' as [|K av lv ks avs lvs Hh _ IHv]; constructor; [|exact IHv].
+        destruct K; [exact Hh|]. cbn [arel] in *. destruct Hh as (d0 & A & B). exists d0. split; [exact A | exact B]. }
+      assert (Hr0 : params_ok pv sv bound ((p, KF ka kr) :: fl) sc ps = true).
+      { eapply params_ok_anti; [exact Hr|]. intros x [Hx|[<-|Hx]]; [left; right; exact Hx | left; left; reflexivity | right; exact Hx]. }
+      destruct (IH ks avs' lvs' ((p, KF ka kr) :: fl) W0 sc ((p, length (SyltSem.cells st)) :: e) (s_alloc st (SyltSem.SClos (fd_ci d)))
+                   (sset (fmt_var p) (s_ncell stL) E) (snd (alloc_cell stL (VFun (fd_fid d)))) Hrel1 Hvs0 ltac:(cbn in Hlen; lia) Hr0)
+        as (W1 & cs & st1 & E1 & stL1 & Hm & Hbl & Hw & Hrel2 & Hlc & Hn & Ht & Hu).
+      exists W1, (length (SyltSem.cells st) :: cs), st1, E1, stL1. splits.
+      * cbn [SyltSem.mapM]. unfold SyltSem.bind at 1. rewrite new_cell_eq. unfold SyltSem.bind at 1. rewrite Hm. reflexivity.
+      * cbn [map bind_locals]. unfold alloc_cell at 1. cbn [first tl]. exact Hbl.
+      * eapply wsub_trans; [apply wsub_addF | exact Hw].
+      * cbn [rev combine bind_scope]. rewrite <- !app_assoc. exact Hrel2.
+      * cbn [length]. lia.
+      * cbn [alloc_cell snd s_ncell] in Hn. lia.
+      * intros t Hbt. rewrite (Ht t Hbt). apply sget_sset_var. lia.
+      * intros v Hnv. rewrite Hu by (intros Hin; apply Hnv; right; exact Hin). apply sget_sset_var. intros ->. apply Hnv. left. reflexivity.
 Qed.
 
-End Sim.
+End Bind.
+
 
 
 
@@ -357,16 +476,13 @@ Variable pv : N.
 Variable sv : N.
 Variable bound : N.
 Variable u : counts.
-Variable fl : list (N * nat).
+Variable fl : list (N * kind).
 Variable W : world.
 
 Notation rel := (rel pv sv bound u fl W).
 Notation ctx_ok := (ctx_ok bound).
 
-Lemma wsub_world_add d : wsub W (world_add W d).
-Proof. unfold wsub, world_add. cbn. repeat split; auto. apply incl_tl, incl_refl. Qed.
-
-(* statement lists: a statement (P_exec, the world stays) or a local function (it joins the world) and the rest *)
+(* statement lists: a statement (P_exec) or a local function (it joins the callable functions) and the rest *)
 Lemma P_blk_succ n :
   (forall fl' W', P_exec pv sv bound u fl' W' n) -> (forall fl' W', P_blk pv sv bound u fl' W' n) ->
   P_blk pv sv bound u fl W (S n).
@@ -377,7 +493,7 @@ Proof.
     cbn in Hev. inversion Hev; subst r st'.
     eexists _, _. split; [apply cshape_nil|]. cbn [blk_post]. exists W, E, stL, F.
     splits; [apply XS_nil | apply wframe_refl | exact Hrel | apply wsub_refl | apply F_new_refl | apply keep_refl
-             | intros v _; reflexivity | apply incl_refl | intros p lv Hq; left; exact Hq].
+             | intros v _; reflexivity | apply incl_refl].
   - destruct k as [|k]; [discriminate|].
     apply mapM_cons_ok in Hm as (y & c1 & ys & Hy & Hys & ->). cbn [concat] in *.
     apply ucovers_app in Hu as [Huy Huys].
@@ -389,25 +505,25 @@ Proof.
       destruct s; try discriminate Hfd. destruct value; try discriminate Hfd. rewrite frag_stmts_fun in Hfrag.
       match type of Hfrag with (if ?b then _ else _) = _ => destruct b eqn:Hc; [|discriminate Hfrag] end.
       apply andb_prop in Hc as [Hc Hfb]. apply andb_prop in Hc as [Hfr Hpok].
-      set (ps := param_ids params) in *. set (fl' := (var, length ps) :: fl) in *.
-      destruct (frag_stmts pv sv bound fl' k (rev ps ++ sc) body) as [scout|] eqn:Hfbody; [|discriminate Hfb].
+      set (ps := param_ids params) in *. set (ks := param_kinds params) in *. set (fl' := (var, KF ks KP) :: fl) in *.
+      destruct (frag_stmts pv sv bound (snd (bind_scope ps ks sc fl')) k (fst (bind_scope ps ks sc fl')) body) as [scout|] eqn:Hfbody; [|discriminate Hfb].
+      assert (Hlks : length ks = length ps) by (unfold ks, ps, param_kinds, param_ids; rewrite !map_length; reflexivity).
       destruct g as [|[|g2]]; [cbn in Hy; discriminate Hy | cbn in Hy; discriminate Hy |].
       cbn [statement] in Hy. rewrite definition_fun in Hy. fold ps in Hy. mon Hy. fresh_all. rename a0 into bc.
       destruct n as [|[|n2]]; [cbn in Hev; inversion Hev; subst; destruct Hint | cbn in Hev; inversion Hev; subst; destruct Hint |].
       rewrite exec_def_fun in Hev. fold ps in Hev.
       apply ucovers_cons in Huy as [_ Huy]. apply ucovers_app in Huy as [Hubc _].
-      destruct (L_fb_all pv sv bound u fl' g2 k body ctx (c + 1) bc c1 _ scout l Hm0 Hfbody) as (bb & l1 & Hsb).
+      destruct (L_fb_all pv sv bound u _ g2 k body ctx (c + 1) bc c1 _ scout l Hm0 Hfbody) as (bb & l1 & Hsb).
       pose proof Hsb as (Hemb & Hcc1 & Hfr1 & Hnlb).
       destruct (fresh_id_inv _ _ _ _ _ _ Hfr) as (Hnin & Hnpv & Hnsv & Hvb).
       pose proof (fresh_id_fl _ _ _ _ _ _ Hfr) as Hnfl.
       destruct (L_stmts_all pv sv bound u fl' (S (S g2)) k ss ctx c1 ys c' sc (sc', flr) l1 Hys Hfrag) as (_ & _ & (_ & Hc1c' & _)).
       assert (Hlut1 : lut_ok bound l (c + 1) c1) by (eapply lut_ok_sub; [exact Hlut | lia | lia]).
       assert (HEf1 : E_free E (c + 1) c1) by (eapply E_free_sub; [exact HEf | lia | lia]).
-      pose proof (wi_allvis _ _ _ _ _ _ _ _ _ _ _ (r_world _ _ _ _ _ _ _ _ _ _ _ Hrel)) as Hall.
-      destruct (rel_define_function pv sv bound u fl W sc e st E stL var ps body g2 k scout bc ctx (c + 1) c1 l
-                  Hrel Hall Hfr Hpok Hfbody Hm0 Hubc ltac:(lia) Hlut1 HEf1) as (Hrel1 & _).
+      pose proof (rel_define_function pv sv bound u fl W sc e st E stL var ps ks body g2 k scout bc ctx (c + 1) c1 l
+                  Hrel Hfr Hpok Hlks Hfbody Hm0 Hubc ltac:(lia) Hlut1 HEf1) as Hrel1.
       set (E1 := sset (fmt_var var) (s_ncell stL) E) in *.
-      set (d := mkFdyn var ps body sc fl' g2 k scout bc ctx (c + 1) c1 l (length (SyltSem.cells st)) (length (SyltSem.clos st))
+      set (d := mkFdyn var ps ks body sc fl' g2 k scout bc ctx (c + 1) c1 l (length (SyltSem.cells st)) (length (SyltSem.clos st))
                        (def_env var e st) (s_ncell stL) (s_nclo stL) E1) in *.
       change (SimDefs.rel pv sv bound u fl' (world_add W d) sc (def_env var e st) (def_state var ps body e st) E1 (lua_def_state stL E1 ps (fbody u d))) in Hrel1.
       assert (Hbb : bb = fbody u d) by (unfold fbody; cbn [d fd_lut fd_code]; apply (Emits_block_fun u l bc bb l1 Hemb)).
@@ -431,22 +547,24 @@ Proof.
       assert (Hse1 : sext pv fl sc e (def_env var e st)).
       { intros w Hw. unfold def_env. cbn [SyltSem.lookup]. destruct (N.eqb_spec var w) as [->|]; [|reflexivity].
         destruct Hw as [Hw|[Hw|Hw]]; [contradiction | congruence | contradiction]. }
-      assert (Hk1 : keep sc E E1) by (intros w Hw; unfold E1; apply sget_sset_var; intros ->; contradiction).
-      assert (Hfn1 : incl (fnames fl) (fnames fl')) by (apply incl_tl, incl_refl).
+      assert (Hk1 : keep fl sc E E1).
+      { intros w Hw. unfold E1. apply sget_sset_var. intros ->. destruct Hw as [Hw|Hw]; contradiction. }
+      assert (Hfn1 : incl fl fl') by (apply incl_tl, incl_refl).
+      assert (Hkw : forall E2, keep fl' sc E1 E2 -> keep fl sc E1 E2).
+      { intros E2 H2 w Hw. apply H2. destruct Hw as [Hw|Hw]; [left; exact Hw | right; right; exact Hw]. }
       destruct (HB fl' (world_add W d) (S (S g2)) k ss ctx c1 ys c' (def_env var e st) (def_state var ps body e st) r st' sc sc' flr l1 E1
                    (lua_def_state stL E1 ps bb) F Hev Hys Hfrag Huys Hctx1 Hrel1 Hint) as (b2 & l2 & Hs2 & Hpost).
       eexists _, _. split; [eapply cshape_app; [apply cshape_fun; [exact Hsb | apply Hlb; exact Hvb] | exact Hs2]|].
       assert (Hxone : ExecS E [SLocalFun (fmt_var var) (map fmt_var ps) bb] stL (ROk (E1, SigNormal) (lua_def_state stL E1 ps bb)))
         by (apply ExecS_one; exact Hx1).
       destruct r as [e2|o|a].
-      * cbn [blk_post] in *. destruct Hpost as (W2 & E2 & stL2 & F2 & Hx2 & Hf2 & Hr2 & Hw2 & HFn2 & Hk2 & Hs2' & Hi2 & Hwn2).
+      * cbn [blk_post] in *. destruct Hpost as (W2 & E2 & stL2 & F2 & Hx2 & Hf2 & Hr2 & Hw2 & HFn2 & Hk2 & Hs2' & Hi2).
         exists W2, E2, stL2, F2.
         splits; [eapply ExecS_app; eassumption
                 | eapply wframe_trans; [eapply wframe_widen; [exact Hf1 | lia | lia] | eapply wframe_widen; [exact Hf2 | lia | lia]]
                 | exact Hr2 | eapply wsub_trans; [apply wsub_world_add | exact Hw2] | eapply F_new_widen; [exact HFn2 | lia | lia]
-                | eapply keep_trans; eassumption | | exact Hi2 |].
-        -- intros w Hw. rewrite Hs2'; [apply Hse1; exact Hw|]. destruct Hw as [Hw|[Hw|Hw]]; [left; exact Hw | right; left; exact Hw | right; right; right; exact Hw].
-        -- intros p lv Hq. destruct (Hwn2 p lv Hq) as [[Hq'|[-> _]]|Hq']; [left; exact Hq' | right; cbn [d fd_pf]; lia | right; lia].
+                | eapply keep_trans; [exact Hk1 | apply Hkw; exact Hk2] | | exact Hi2].
+        intros w Hw. rewrite Hs2'; [apply Hse1; exact Hw|]. destruct Hw as [Hw|[Hw|Hw]]; [left; exact Hw | right; left; exact Hw | right; right; right; exact Hw].
       * cbn [blk_post] in *.
         eapply (exit_pre_w pv sv bound u fl W fl' (world_add W d) ctx sc sc e (def_env var e st) st c c1 c1 c' c c' E stL _ E1 (lua_def_state stL E1 ps bb));
           [exact Hxone | exact Hf1 | exact Hk1 | exact Hrel | apply wsub_world_add | exact Hfn1 | exact Hse1 | apply incl_refl | exact Hpost | lia | lia | lia | lia].
@@ -474,39 +592,40 @@ Proof.
       destruct (HB fl W g k ss ctx c1 ys c' e1 st1 r st' sc1 sc' flr l1 E1 stL1 F1 Hev Hys Hfrag Huys Hctx1 Hrel1 Hint)
         as (b2 & l2 & Hs2 & Hpost).
       eexists _, _. split; [eapply cshape_app; eassumption|].
-      pose proof (wr_ncell _ _ _ _ _ _ _ Hf1) as Hn1.
       destruct r as [e2|o|a].
-      * cbn [blk_post] in *. destruct Hpost as (W2 & E2 & stL2 & F2 & Hx2 & Hf2 & Hr2 & Hw2 & HFn2 & Hk2 & Hs2' & Hi2 & Hwn2).
+      * cbn [blk_post] in *. destruct Hpost as (W2 & E2 & stL2 & F2 & Hx2 & Hf2 & Hr2 & Hw2 & HFn2 & Hk2 & Hs2' & Hi2).
         exists W2, E2, stL2, F2.
         splits; [eapply ExecS_app; eassumption
                 | eapply wframe_trans; [eapply wframe_widen; [exact Hf1 | lia | lia] | eapply wframe_widen; [exact Hf2 | lia | lia]]
                 | exact Hr2 | exact Hw2 | eapply F_new_trans; eassumption
-                | intros w Hw; rewrite (Hk2 w (Hinc1 w Hw)); apply Hk1; exact Hw
-                | eapply sext_trans; eassumption | eapply incl_tran; eassumption |].
-        intros p lv Hq. destruct (Hwn2 p lv Hq) as [Hq'|Hq']; [left; exact Hq' | right; lia].
+                | eapply keep_trans_incl; eassumption
+                | eapply sext_trans; eassumption | eapply incl_tran; eassumption].
       * cbn [blk_post] in *. eapply (exit_pre pv sv bound u fl W ctx sc sc1 e e1 st st1); eassumption.
       * cbn [blk_post] in *. eapply (exit_pre pv sv bound u fl W ctx sc sc1 e e1 st st1); eassumption.
 Qed.
 
 (* the body block after a prefix that ended normally *)
 Lemma fb_pre fl1 W1 sc sc1 e e1 E E1 stL stL1 b1 b2 r st' :
-  ExecS E b1 stL (ROk (E1, SigNormal) stL1) -> wsub W W1 -> sext pv fl sc e e1 -> incl sc sc1 -> keep sc E E1 ->
-  (s_ncell stL <= s_ncell stL1)%positive -> incl (fnames fl) (fnames fl1) ->
+  ExecS E b1 stL (ROk (E1, SigNormal) stL1) -> wsub W W1 -> sext pv fl sc e e1 -> incl sc sc1 -> keep fl sc E E1 ->
+  (s_ncell stL <= s_ncell stL1)%positive -> incl fl fl1 ->
   fb_post pv sv bound u fl1 W1 sc1 e1 E1 stL1 b2 r st' -> fb_post pv sv bound u fl W sc e E stL (b1 ++ b2) r st'.
 Proof.
   intros Hx1 Hw1 Hs1 Hi1 Hk1 Hn1 Hfl Hp.
+  assert (Hfn : incl (fnames fl) (fnames fl1)) by (unfold fnames; apply incl_map; exact Hfl).
   assert (Hsx : forall e2, sext pv fl1 sc1 e1 e2 -> sext pv fl sc e e2).
-  { intros e2 H2 w Hw. rewrite H2; [apply Hs1; exact Hw|]. destruct Hw as [Hw|[Hw|Hw]]; [left; apply Hi1; exact Hw | right; left; exact Hw | right; right; apply Hfl; exact Hw]. }
+  { intros e2 H2 w Hw. rewrite H2; [apply Hs1; exact Hw|]. destruct Hw as [Hw|[Hw|Hw]]; [left; apply Hi1; exact Hw | right; left; exact Hw | right; right; apply Hfn; exact Hw]. }
+  assert (Hkx : forall E2, keep fl1 sc1 E1 E2 -> keep fl sc E E2).
+  { intros E2 H2 w Hw. rewrite H2; [apply Hk1; exact Hw|]. destruct Hw as [Hw|Hw]; [left; apply Hi1; exact Hw | right; apply Hfn; exact Hw]. }
   destruct r as [v|o|[| |v]]; cbn [fb_post] in *; try exact I.
   - destruct Hp as (fl2 & W2 & E2 & sg & stL2 & sc2 & e2 & Hx2 & Hsg & Hr2 & Hw2 & Hs2 & Hi2 & Hk2 & Hn2).
     exists fl2, W2, E2, sg, stL2, sc2, e2.
     splits; [eapply ExecS_app; eassumption | exact Hsg | exact Hr2 | eapply wsub_trans; eassumption | eapply Hsx; eassumption
-             | eapply incl_tran; eassumption | intros w Hw; rewrite (Hk2 w (Hi1 w Hw)); apply Hk1; exact Hw | lia].
+             | eapply incl_tran; eassumption | apply Hkx; exact Hk2 | lia].
   - destruct Hp as (ev & stL2 & Hx2 & Htr). exists ev, stL2. split; [eapply ExecS_app; eassumption | exact Htr].
   - destruct Hp as (fl2 & W2 & sc2 & e2 & E2 & Er & stL2 & lv & Hx2 & Hv2 & Hr2 & Hw2 & Hs2 & Hi2 & Hk2 & Hn2).
     exists fl2, W2, sc2, e2, E2, Er, stL2, lv.
     splits; [eapply ExecS_app; eassumption | exact Hv2 | exact Hr2 | eapply wsub_trans; eassumption | eapply Hsx; eassumption
-             | eapply incl_tran; eassumption | intros w Hw; rewrite (Hk2 w (Hi1 w Hw)); apply Hk1; exact Hw | lia].
+             | eapply incl_tran; eassumption | apply Hkx; exact Hk2 | lia].
 Qed.
 
 (* the body block stopped by a prefix *)
@@ -575,7 +694,7 @@ Proof.
            destruct Hpost as (rl & Hx & (ev & stL' & -> & Htr)). exists ev, stL'. split; assumption. }
       cbn in Hev'. inversion Hev'; subst r st'. clear Hev'.
       destruct (IHb fl W g k _ ctx c _ c' e st _ st1 sc sc' flr l E stL F He1 Hmall Hfrag0 Huall Hctx Hrel I)
-        as (b1 & l1 & Hs1 & W1 & E1 & stL1 & F1 & Hx1 & Hf1 & Hrel1 & Hw1 & _ & Hk1 & Hse1 & Hinc1 & _). rewrite Hcc in Hs1.
+        as (b1 & l1 & Hs1 & W1 & E1 & stL1 & F1 & Hx1 & Hf1 & Hrel1 & Hw1 & _ & Hk1 & Hse1 & Hinc1). rewrite Hcc in Hs1.
       eexists _, _. split; [exact Hs1|].
       exists flr, W1, E1, SigNormal, stL1, sc', e1.
       splits; [exact Hx1 | left; split; reflexivity | exact Hrel1 | exact Hw1 | exact Hse1 | exact Hinc1 | exact Hk1 | apply (wr_ncell _ _ _ _ _ _ _ Hf1)]. }
@@ -594,7 +713,7 @@ Proof.
     destruct (L_stmts_all pv sv bound u fl g k (rev init_rev) ctx c cs c0 sc (sc1, fl1) l Hmi Hfi) as (_ & _ & (_ & Hcc0 & _)).
     assert (Hret : forall l0, cshape u l0 [IReturn rv] (fst (agen_one u l0 (IReturn rv))) l0 c' c')
       by (intros lx; apply cshape_plain; [lia | reflexivity | reflexivity | reflexivity]).
-    pose proof (frag_stmts_fnames pv sv bound _ _ _ _ _ _ Hfi) as Hfn.
+    pose proof (frag_stmts_flincl pv sv bound _ _ _ _ _ _ Hfi) as Hfn.
     assert (Hctxi : ctx_ok l F E c c0) by (eapply ctx_sub; [exact Hctx | lia | lia]).
     unfold SyltSem.bind at 1 in Hev.
     destruct (SyltSem.exec_block n e (rev init_rev) st) as [[e1|o|cc] st1] eqn:He1.
@@ -610,7 +729,7 @@ Proof.
          cbn [blk_post fb_post] in *. destruct Hp1 as (rl & Hx1 & (ev & stL1 & -> & Htr)).
          exists ev, stL1. split; [apply ExecS_app_stop; [exact Hx1 | intros []] | exact Htr]. }
     destruct (IHb fl W g k _ ctx c _ c0 e st _ st1 sc sc1 fl1 l E stL F He1 Hmi Hfi Hui Hctxi Hrel I)
-      as (b1 & l1 & Hs1 & W1 & E1 & stL1 & F1 & Hx1 & Hf1 & Hrel1 & Hw1 & HFn1 & Hk1 & Hse1 & Hinc1 & _).
+      as (b1 & l1 & Hs1 & W1 & E1 & stL1 & F1 & Hx1 & Hf1 & Hrel1 & Hw1 & HFn1 & Hk1 & Hse1 & Hinc1).
     assert (Hctx1 : ctx_ok l1 F1 E1 c0 c') by (eapply (ctx_after_blk bound u); eassumption).
     pose proof (wr_ncell _ _ _ _ _ _ _ Hf1) as Hn1.
     destruct (SyltSem.eval n e1 value st1) as [[v_|o|cc] st2] eqn:He2.
@@ -642,7 +761,9 @@ Proof.
     + exact Hw1.
     + exact Hse1.
     + exact Hinc1.
-    + intros w Hw. rewrite (Hk2 w (Hinc1 w Hw)). apply Hk1. exact Hw.
+    + intros w Hw. rewrite Hk2; [apply Hk1; exact Hw|].
+      destruct Hw as [Hw|Hw]; [left; apply Hinc1; exact Hw | right].
+      unfold fnames in *. apply in_map_iff in Hw as (x & <- & Hx). apply in_map. apply Hfn. exact Hx.
     + pose proof (wr_ncell _ _ _ _ _ _ _ Hf2).
       destruct Hx3 as (_ & _ & _ & _ & _ & _ & Hn3 & _). lia.
 Qed.
@@ -654,158 +775,107 @@ Variable pv : N.
 Variable sv : N.
 Variable bound : N.
 Variable u : counts.
-Variable fl : list (N * nat).
-Variable W : world.
-
-Notation rel := (rel pv sv bound u fl W).
-Notation winv := (winv pv sv bound u fl W).
 
 (* ------------------------------------------------------------------ the world of the callee *)
 
-(* during the call of d from the scope (sc, e, E) in the states (st, stL): the caller's variables that the
-   callee does not see and all the caller's temporaries keep their content *)
-Definition callee_world (d : fdyn) (sc : list N) (e : senv) (st : sstate) (E : env) (stL : state) : world :=
-  mkWorld
-    (fun c x => w_IS W c x \/
-                exists v, In v sc /\ ~ In v (fd_sc d) /\ SyltSem.lookup e v = Some c /\ nth_error (SyltSem.cells st) c = Some x)
-    (fun p lv => w_IL W p lv \/
-                 (exists v, In v sc /\ ~ In v (fd_sc d) /\ sget (fmt_var v) E = Some p /\ get_cell stL p = lv) \/
-                 (exists t, bound <= t /\ sget (fmt_var t) E = Some p /\ get_cell stL p = lv))
-    (fun ci cl => nth_error (SyltSem.clos st) ci = Some cl)
-    (fun fid c => pget fid (s_clos stL) = Some c /\ (fid < s_nclo stL)%positive)
-    (filter (fun d' => memN (fd_var d') (fnames (fd_fl d))) (w_funs W)).
+(* during a call from the environment E in the state stL: the temporaries of the caller keep their content *)
+Definition callee_world (W1 : world) (E : env) (stL : state) : world :=
+  mkWorld (w_R W1) (w_F W1) (w_D W1)
+          (fun p lv => w_P W1 p lv \/ (exists t, bound <= t /\ sget (fmt_var t) E = Some p /\ get_cell stL p = lv))
+          (w_pc W1).
 
-Lemma callee_funs d sc e st E stL d' :
-  In d' (w_funs (callee_world d sc e st E stL)) <-> In d' (w_funs W) /\ In (fd_var d') (fnames (fd_fl d)).
+(* the relation at the closure environment of a closure that exists, in the world of its call *)
+Lemma callee_rel fl W1 d sc e st E stL :
+  rel0 pv sv bound u fl W1 sc e st E stL -> w_D W1 d ->
+  rel pv sv bound u (fd_fl d) (callee_world W1 E stL) (fd_sc d) (fd_ef d) st (fd_Ef d) stL.
 Proof.
-  cbn [callee_world w_funs]. rewrite filter_In. split; intros [A B]; (split; [exact A|]).
-  - unfold memN in B. apply existsb_exists in B as (y & Hy & Heq). apply N.eqb_eq in Heq. subst. exact Hy.
-  - unfold memN. apply existsb_exists. exists (fd_var d'). split; [exact B | apply N.eqb_refl].
-Qed.
-
-(* the relation at the closure environment of a callable function, in the world of its call *)
-Lemma callee_rel d sc e st E stL :
-  rel sc e st E stL -> In d (w_funs W) -> In (fd_var d) (fnames fl) ->
-  SimDefs.rel pv sv bound u (fd_fl d) (callee_world d sc e st E stL) (fd_sc d) (fd_ef d) st (fd_Ef d) stL.
-Proof.
-  intros Hrel Hd Hvis.
-  pose proof Hrel as [Hv Hb Hi Hp Hpb HpE HpG Hwf Ht Hli HW].
-  destruct (wi_fun _ _ _ _ _ _ _ _ _ _ _ HW d Hd) as (Hst & HIS & HIL).
-  destruct (wi_clos _ _ _ _ _ _ _ _ _ _ _ HW d Hd) as (Hclo & HcloL & Halloc & _).
-  destruct (wi_visS _ _ _ _ _ _ _ _ _ _ _ HW d Hd Hvis) as [HnameS HagS].
-  destruct (wi_visL _ _ _ _ _ _ _ _ _ _ _ HW d Hd Hvis) as [HnameL HagL].
-  destruct (wi_vsc _ _ _ _ _ _ _ _ _ _ _ HW d Hd Hvis) as [Hisc Hifl].
-  assert (HlkS : forall g, In g (fd_sc d) -> SyltSem.lookup (fd_ef d) g = SyltSem.lookup e g) by (intros g Hg; apply HagS; left; left; exact Hg).
-  assert (HlkL : forall g, In g (fd_sc d) -> sget (fmt_var g) (fd_Ef d) = sget (fmt_var g) E) by (intros g Hg; apply HagL; left; exact Hg).
+  intros Hrel Hd.
+  pose proof Hrel as [Hb Hfb Hp Hpb HpE HpG Hwf Ht Hli HW].
+  pose proof HW as [H1 H2 H3 H4 H5 H6 H7 Hff H8 H9 H10 Hall Hlock H11 H13 H14].
+  destruct (H10 d Hd) as (Hst & Hclo & HcloL & Halloc & Hfid & Hci & Hpc & Hsc & Hfl & Htm).
+  apply rel_of0.
+  { intros f ar Hin. destruct (Hfl f ar Hin) as (c & p & d' & A & B & C & D). exists c, p, d'.
+    cbn [callee_world w_F w_D]. destruct (H6 c p d' C) as (_ & _ & _ & Hd'). auto 10. }
   constructor.
-  - intros g Hg. destruct (Hv g (Hisc g Hg)) as (c & x & p & H1 & H2 & H3 & H4).
-    exists c, x, p. rewrite (HlkS g Hg), (HlkL g Hg). auto.
   - apply (fs_scb _ _ _ _ _ Hst).
-  - intros v1 v2 c H1 H2. rewrite (HlkS v1 H1), (HlkS v2 H2). apply Hi; apply Hisc; assumption.
-  - destruct Hp as (cp & Hlkp & Hnthp & Hdist). exists cp.
-    rewrite (HagS pv (or_intror eq_refl)). splits; [exact Hlkp | exact Hnthp |].
-    intros g Hg. rewrite (HlkS g Hg). apply Hdist. apply Hisc. exact Hg.
+  - apply (fs_flb _ _ _ _ _ Hst).
+  - exact Hpc.
   - exact Hpb.
   - apply (fs_EpvE _ _ _ _ _ Hst).
   - exact HpG.
   - constructor; [apply (fs_EV _ _ _ _ _ Hst) | apply (fs_Einj _ _ _ _ _ Hst) | exact Halloc].
   - exact Ht.
   - exact Hli.
-  - constructor; cbn [callee_world w_IS w_IL w_CS w_CL].
-    + intros c x [Hc|(v & _ & _ & _ & Hn)]; [apply (wi_IS _ _ _ _ _ _ _ _ _ _ _ HW); exact Hc | exact Hn].
-    + intros p lv [Hq|[(v & _ & _ & Hq & Hc)|(t & _ & Hq & Hc)]].
-      * apply (wi_IL _ _ _ _ _ _ _ _ _ _ _ HW); exact Hq.
-      * split; [exact Hc | eapply wf_alloc; eassumption].
-      * split; [exact Hc | eapply wf_alloc; eassumption].
-    + intros ci cl H. exact H.
-    + intros fid c H. exact H.
-    + intros d' Hd'. apply callee_funs in Hd' as [_ H]. exact H.
-    + intros d' Hd'. apply callee_funs in Hd' as [Hd' _]. apply (wi_clos _ _ _ _ _ _ _ _ _ _ _ HW d' Hd').
-    + intros d' Hd'. apply callee_funs in Hd' as [Hd' _]. destruct (wi_fun _ _ _ _ _ _ _ _ _ _ _ HW d' Hd') as (A & B & C). splits; [exact A | left; exact B | left; exact C].
-    + intros d1 d2 Hd1 Hd2. apply callee_funs in Hd1 as [Hd1 _]. apply callee_funs in Hd2 as [Hd2 _]. apply (wi_inter _ _ _ _ _ _ _ _ _ _ _ HW d1 d2 Hd1 Hd2).
-    + intros f ar Hf. destruct (wi_cover _ _ _ _ _ _ _ _ _ _ _ HW f ar (Hifl _ Hf)) as (d' & A & B & C). exists d'. splits; [|exact B | exact C].
-      apply callee_funs. split; [exact A|]. rewrite B. unfold fnames. change f with (fst (f, ar)). apply in_map. exact Hf.
-    + intros d1 d2 Hd1 Hd2. apply callee_funs in Hd1 as [Hd1 _]. apply callee_funs in Hd2 as [Hd2 _]. apply (wi_uniq _ _ _ _ _ _ _ _ _ _ _ HW d1 d2 Hd1 Hd2).
-    + intros g c x Hg Hlk [Hc|(v & Hvin & Hnv & Hlkv & _)].
-      * rewrite (HlkS g Hg) in Hlk. exact (wi_scS _ _ _ _ _ _ _ _ _ _ _ HW g c x (Hisc g Hg) Hlk Hc).
-      * rewrite (HlkS g Hg) in Hlk. assert (v = g) by (eapply Hi; [exact Hvin | apply Hisc; exact Hg | exact Hlkv | exact Hlk]).
-        subst v. contradiction.
-    + intros g Hg Hgf. apply (wi_scfl _ _ _ _ _ _ _ _ _ _ _ HW g (Hisc g Hg)). unfold fnames in *. apply (incl_map fst Hifl). exact Hgf.
-    + intros g p lv Hg Hq [Hc|[(v & Hvin & Hnv & Hqv & _)|(t & Hbt & Hqt & _)]]; rewrite (HlkL g Hg) in Hq.
-      * exact (wi_lprot _ _ _ _ _ _ _ _ _ _ _ HW g p lv (Hisc g Hg) Hq Hc).
-      * assert (fmt_var v = fmt_var g) by (eapply wf_inj; eassumption). apply fmt_var_inj in H. subst v. contradiction.
-      * assert (fmt_var t = fmt_var g) by (eapply wf_inj; eassumption). apply fmt_var_inj in H. subst t. destruct (Hb g (Hisc g Hg)). lia.
-    + intros d' Hd' Hv'. apply callee_funs in Hd' as [Hd' _]. apply (wi_inter _ _ _ _ _ _ _ _ _ _ _ HW d d' Hd Hd' Hv').
-    + intros d' Hd' Hv'. apply callee_funs in Hd' as [Hd' _]. apply (wi_inter _ _ _ _ _ _ _ _ _ _ _ HW d d' Hd Hd' Hv').
-    + intros d' Hd' Hv'. apply callee_funs in Hd' as [Hd' _]. destruct (wi_inter _ _ _ _ _ _ _ _ _ _ _ HW d d' Hd Hd' Hv') as (_ & _ & A & B). split; assumption.
+  - constructor; cbn [callee_world w_R w_F w_D w_P w_pc].
+    + exact H1.
+    + exact H2.
+    + exact H3.
+    + exact H4.
+    + intros c p lv Hr [Hq|(t & Hbt & Hq & _)]; [exact (H5 c p lv Hr Hq)|]. destruct (H14 t p Hbt Hq) as [Hn _]. exact (Hn c Hr).
+    + exact H6.
+    + intros c p d0 lv Hf [Hq|(t & Hbt & Hq & _)]; [exact (H7 c p d0 lv Hf Hq)|]. destruct (H14 t p Hbt Hq) as [_ Hn]. exact (Hn c d0 Hf).
+    + exact Hff.
+    + intros p lv [Hq|(t & Hbt & Hq & Hc)]; [exact (H8 p lv Hq) | split; [exact Hc | eapply wf_alloc; eassumption]].
+    + exact H9.
+    + exact H10.
+    + exact Hall.
+    + exact Hlock.
+    + exact Hsc.
+    + apply (fs_scfl _ _ _ _ _ Hst).
+    + exact Htm.
 Qed.
 
 (* back in the caller after the call *)
-Lemma caller_back d sc e st E stL fl2 W2 sc2 e2 E2 st' stL' :
-  rel sc e st E stL -> In d (w_funs W) -> In (fd_var d) (fnames fl) ->
-  SimDefs.rel pv sv bound u fl2 W2 sc2 e2 st' E2 stL' -> wsub (callee_world d sc e st E stL) W2 ->
-  incl (fd_sc d) sc2 ->
-  (forall g, In g (fd_sc d) \/ g = pv -> SyltSem.lookup e2 g = SyltSem.lookup (fd_ef d) g) ->
-  (forall g, In g (fd_sc d) -> sget (fmt_var g) E2 = sget (fmt_var g) (fd_Ef d)) ->
+Lemma caller_back fl W W1 sc e st E stL fl2 Wc2 sc2 e2 E2 st' stL' :
+  fscope fl W e E -> wsub W W1 -> rel0 pv sv bound u fl W1 sc e st E stL ->
+  rel pv sv bound u fl2 Wc2 sc2 e2 st' E2 stL' -> wsub (callee_world W1 E stL) Wc2 ->
   (s_ncell stL <= s_ncell stL')%positive ->
-  rel sc e st' E stL' /\ call_frame bound E stL stL'.
+  rel pv sv bound u fl W sc e st' E stL' /\ call_frame bound E stL stL'.
 Proof.
-  intros Hrel Hd Hvis Hrel' (HwS & HwL & HwCS & HwCL & _) Hinc HeS HeL Hnc.
-  pose proof Hrel as [Hv Hb Hi Hp Hpb HpE HpG Hwf Ht Hli HW].
-  pose proof Hrel' as [Hv' Hb' Hi' Hp' Hpb' HpE' HpG' Hwf' Ht' Hli' HW'].
-  destruct (wi_visS _ _ _ _ _ _ _ _ _ _ _ HW d Hd Hvis) as [HnameS HagS].
-  destruct (wi_visL _ _ _ _ _ _ _ _ _ _ _ HW d Hd Hvis) as [HnameL HagL].
-  assert (HIS' : forall c x, w_IS (callee_world d sc e st E stL) c x -> nth_error (SyltSem.cells st') c = Some x)
-    by (intros c x H; apply (wi_IS _ _ _ _ _ _ _ _ _ _ _ HW'), HwS; exact H).
-  assert (HIL' : forall p lv, w_IL (callee_world d sc e st E stL) p lv -> get_cell stL' p = lv)
-    by (intros p lv H; apply (wi_IL _ _ _ _ _ _ _ _ _ _ _ HW' p lv (HwL p lv H))).
+  intros Hfs Hs1 Hrel (_ & W2 & Hs2 & Hrel2) Hsc Hnc.
+  pose proof (wsub_trans _ _ _ Hsc Hs2) as (HsR & HsF & HsD & HsP & Hspc).
+  pose proof Hrel as [Hb Hfb Hp Hpb HpE HpG Hwf Ht Hli HW].
+  pose proof Hrel2 as [Hb' Hfb' Hp' Hpb' HpE' HpG' Hwf' Ht' Hli' HW'].
+  pose proof HW' as [H1 H2 H3 H4 H5 H6 H7 Hff H8 H9 H10 Hall Hlock H11 H13 H14].
+  cbn [callee_world w_R w_F w_D w_P w_pc] in HsR, HsF, HsD, HsP, Hspc.
+  assert (Htemp : forall t p, bound <= t -> sget (fmt_var t) E = Some p -> w_P W2 p (get_cell stL p)).
+  { intros t p Hbt Hq. apply HsP. right. exists t. auto. }
+  set (W3 := mkWorld (w_R W2) (w_F W2) (w_D W2) (w_P W1) (w_pc W2)).
   split.
-  - constructor.
-    + intros v Hin. destruct (in_dec N.eq_dec v (fd_sc d)) as [Hg|Hng].
-      * destruct (Hv' v (Hinc v Hg)) as (c & x & p & H1 & H2 & H3 & H4).
-        exists c, x, p. rewrite (HeS v (or_introl Hg)), (HagS v (or_introl (or_introl Hg))) in H1.
-        rewrite (HeL v Hg), (HagL v (or_introl Hg)) in H3. auto.
-      * destruct (Hv v Hin) as (c & x & p & H1 & H2 & H3 & H4).
-        exists c, x, p. splits; [exact H1 | | exact H3 |].
-        -- apply HIS'. right. exists v. auto.
-        -- rewrite (HIL' p (get_cell stL p)); [exact H4|]. right. left. exists v. auto.
+  - split; [exact Hfs|]. exists W3. split.
+    { destruct Hs1 as (A & B & C & D & F). unfold wsub, W3. cbn.
+      split; [intros c p Hr; apply HsR, A, Hr|]. split; [intros c p d Hf; apply HsF, B, Hf|].
+      split; [intros d Hd; apply HsD, C, Hd|]. split; [exact D | congruence]. }
+    constructor.
     + exact Hb.
-    + exact Hi.
-    + destruct Hp as (cp & Hlkp & Hnthp & Hdist). destruct Hp' as (cp' & Hlkp' & Hnthp' & _).
-      rewrite (HeS pv (or_intror eq_refl)), (HagS pv (or_intror eq_refl)), Hlkp in Hlkp'. inversion Hlkp'; subst cp'.
-      exists cp. auto.
+    + exact Hfb.
+    + unfold W3. cbn [w_pc]. rewrite Hspc. exact Hp.
     + exact Hpb.
     + exact HpE.
     + exact HpG'.
     + destruct Hwf as [HV Hinj Hal]. constructor; [exact HV | exact Hinj |]. intros x p Hx. specialize (Hal x p Hx). lia.
     + exact Ht'.
     + exact Hli'.
-    + assert (HCS' : forall ci cl, nth_error (SyltSem.clos st) ci = Some cl -> nth_error (SyltSem.clos st') ci = Some cl)
-        by (intros ci cl H; apply (wi_CS _ _ _ _ _ _ _ _ _ _ _ HW' ci cl), HwCS; exact H).
-      assert (HCL' : forall fid c0, pget fid (s_clos stL) = Some c0 -> (fid < s_nclo stL)%positive ->
-                                    pget fid (s_clos stL') = Some c0 /\ (fid < s_nclo stL')%positive)
-        by (intros fid c0 H H'; apply (wi_CL _ _ _ _ _ _ _ _ _ _ _ HW' fid c0), HwCL; split; assumption).
-      pose proof HW as HW0.
-      destruct HW as [H1 H2 HCS HCL Hav H3 H4 H5 H6 H7 H8 H9 H10 H11 H12 H13]. constructor.
-      * intros c x Hc. apply HIS'. left. exact Hc.
-      * intros p lv Hq. apply (wi_IL _ _ _ _ _ _ _ _ _ _ _ HW' p lv), HwL. left. exact Hq.
-      * intros ci cl Hc. apply HCS'. apply HCS. exact Hc.
-      * intros fid c0 Hc. destruct (HCL fid c0 Hc) as [A B]. apply HCL'; assumption.
-      * exact Hav.
-      * intros d0 Hd0. destruct (H3 d0 Hd0) as (A & B & C & D & F).
-        destruct (HCL' _ _ B D) as [B' D']. splits; [apply HCS'; exact A | exact B' | | exact D' | apply nth_error_Some; rewrite (HCS' _ _ A); discriminate].
-        intros x p Hx. specialize (C x p Hx). lia.
+    + constructor; unfold W3; cbn [w_R w_F w_D w_P w_pc].
+      * exact H1.
+      * exact H2.
+      * exact H3.
       * exact H4.
-      * exact H5.
+      * intros c p lv Hr Hq. apply (H5 c p lv Hr). apply HsP. left. exact Hq.
       * exact H6.
-      * exact H7.
-      * exact H8.
+      * intros c p d lv Hf Hq. apply (H7 c p d lv Hf). apply HsP. left. exact Hq.
+      * exact Hff.
+      * intros p lv Hq. apply H8. apply HsP. left. exact Hq.
       * exact H9.
       * exact H10.
-      * exact H11.
-      * exact H12.
-      * exact H13.
-  - split; [exact Hnc|]. intros t p Hbt Hq. apply HIL'. right. right. exists t. auto.
+      * exact Hall.
+      * exact Hlock.
+      * intros v Hv. destruct (wi_sc _ _ _ _ _ _ _ _ _ _ _ HW v Hv) as (c & p & A & B & C). exists c, p. auto.
+      * apply (wi_scfl _ _ _ _ _ _ _ _ _ _ _ HW).
+      * intros t p Hbt Hq. pose proof (Htemp t p Hbt Hq) as Hpr. split.
+        -- intros c Hr. exact (H5 c p _ Hr Hpr).
+        -- intros c d Hf. exact (H7 c p d _ Hf Hpr).
+  - split; [exact Hnc|]. intros t p Hbt Hq. apply (H8 p _ (Htemp t p Hbt Hq)).
 Qed.
 
 (* ------------------------------------------------------------------ a call, by the simulation of the body *)
@@ -813,33 +883,36 @@ Qed.
 Lemma map_fst_combine {A B} : forall (l : list A) (l' : list B), length l = length l' -> map fst (combine l l') = l.
 Proof. induction l as [|a l IH]; intros [|b l'] H; cbn in *; try reflexivity; try lia. rewrite IH by lia. reflexivity. Qed.
 
-Lemma P_apply_succ n : (forall fl' W', SimExpr.P_fb pv sv bound u fl' W' n) -> P_apply pv sv bound u fl W (S n).
+Lemma P_apply_succ fl W n : (forall fl' W', SimExpr.P_fb pv sv bound u fl' W' n) -> P_apply pv sv bound u fl W (S n).
 Proof.
-  intros IHfb d avs lvs sc e st E stL r st' Hrel Hd Hvis Hvs Hap Hint.
-  pose proof (r_world _ _ _ _ _ _ _ _ _ _ _ Hrel) as HW.
-  destruct (wi_fun _ _ _ _ _ _ _ _ _ _ _ HW d Hd) as (Hst & _ & _).
-  destruct (wi_clos _ _ _ _ _ _ _ _ _ _ _ HW d Hd) as (Hclo & HcloL & _).
+  intros IHfb d avs lvs sc e st E stL r st' (Hfs & W1 & Hs1 & Hrel) Hd0 Hvs Hap Hint.
+  pose proof (r0_world _ _ _ _ _ _ _ _ _ _ _ Hrel) as HW.
+  assert (Hd : w_D W1 d) by (destruct Hs1 as (_ & _ & HD & _); apply HD; exact Hd0).
+  destruct (wi_D _ _ _ _ _ _ _ _ _ _ _ HW d Hd) as (Hst & Hclo & HcloL & _).
   cbn [SyltSem.apply] in Hap. unfold SyltSem.bind at 1 in Hap. unfold SyltSem.get_clos in Hap. rewrite Hclo in Hap.
   cbn [SyltSem.cl_params SyltSem.cl_body SyltSem.cl_env] in Hap.
+  destruct (Forall3_length _ _ _ _ Hvs) as [Hla Hll].
+  pose proof (fs_pk _ _ _ _ _ Hst) as Hpk.
   destruct (Nat.eqb (length (fd_params d)) (length avs)) eqn:Hlen.
   2: { inversion Hap; subst. destruct Hint. }
   apply Nat.eqb_eq in Hlen.
   (* the world and the environment of the callee *)
-  pose proof (callee_rel d sc e st E stL Hrel Hd Hvis) as Hrel0.
-  set (W' := callee_world d sc e st E stL) in *.
-  destruct (bind_params pv sv bound u (fd_fl d) W' (fd_params d) avs lvs (fd_sc d) (fd_ef d) st (fd_Ef d) stL Hrel0 Hvs Hlen
+  set (W' := callee_world W1 E stL).
+  pose proof (callee_rel fl W1 d sc e st E stL Hrel Hd) as Hrel0. fold W' in Hrel0.
+  assert (Hvs' : Forall3 (arel W') (fd_pk d) avs lvs).
+  { clear - Hvs Hs1. induction Hvs as [|K av lv ks avs lvs Hh _ IHv]; constructor; [|exact IHv].
+    destruct K; [exact Hh|]. cbn [arel] in *. destruct Hh as (d0 & A & B). exists d0. split; [|exact B].
+    unfold W'. cbn [callee_world w_D]. destruct Hs1 as (_ & _ & HD & _). apply HD. exact A. }
+  destruct (bind_params pv sv bound u (fd_params d) (fd_pk d) avs lvs (fd_fl d) W' (fd_sc d) (fd_ef d) st (fd_Ef d) stL Hrel0 Hvs' ltac:(lia)
                         (fs_params _ _ _ _ _ Hst))
-    as (cs & st1 & E1 & stL1 & Hm & Hbl & Hrel1 & Hlc & Hn1 & Ht1 & Hu1).
+    as (Wb & cs & st1 & E1 & stL1 & Hm & Hbl & Hwb & Hrel1 & Hlc & Hn1 & Ht1 & Hu1).
   unfold SyltSem.bind at 1 in Hap. rewrite Hm in Hap.
   destruct (params_ok_inv pv sv bound (fd_fl d) _ _ (fs_params _ _ _ _ _ Hst)) as [Hnd Hpall].
   assert (Hmf : map fst (combine (fd_params d) cs) = fd_params d) by (apply map_fst_combine; lia).
   set (ec := (combine (fd_params d) cs ++ fd_ef d)%list) in *.
   assert (Hlk : forall v, SyltSem.lookup ec v = SyltSem.lookup (rev (combine (fd_params d) cs) ++ fd_ef d) v)
     by (intros v; unfold ec; symmetry; apply lookup_rev_nodup; rewrite Hmf; exact Hnd).
-  pose proof (rel_lookup_ext pv sv bound u (fd_fl d) W' _ _ ec _ _ _ Hlk Hrel1) as Hrel1'.
-  assert (Hlkf : forall g, In g (fd_sc d) \/ g = pv -> SyltSem.lookup ec g = SyltSem.lookup (fd_ef d) g).
-  { intros g Hg. unfold ec. apply lookup_app_notin. rewrite Hmf. intros Hin. destruct (Hpall g Hin) as (Hn & _ & Hnp & _).
-    destruct Hg as [Hg|Hg]; [exact (Hn Hg) | exact (Hnp Hg)]. }
+  pose proof (rel_lookup_ext pv sv bound u _ Wb _ _ ec _ _ _ Hlk Hrel1) as Hrel1'.
   destruct (SyltSem.block_value n ec (fd_body d) st1) as [rb st2] eqn:Hbv.
   assert (Hintb : interesting rb /\ match rb with SyltSem.RAbrupt SyltSem.CBreak | SyltSem.RAbrupt SyltSem.CContinue => False | _ => True end).
   { destruct rb as [v|o|[| |v]].
@@ -852,7 +925,7 @@ Proof.
   assert (Hctx : ctx_ok bound (fd_lut d) [] E1 (fd_c d) (fd_c' d)).
   { constructor; [apply (fs_bound _ _ _ _ _ Hst) | intros t Ht; apply (fs_lut _ _ _ _ _ Hst); exact Ht | intros t [] |].
     intros t Ht. rewrite Ht1 by (pose proof (fs_bound _ _ _ _ _ Hst); lia). apply (fs_Efree _ _ _ _ _ Hst). exact Ht. }
-  destruct (IHfb (fd_fl d) W' (fd_g d) (fd_k d) (fd_body d) (fd_ctx d) (fd_c d) (fd_code d) (fd_c' d) ec st1 rb st2 _ (fd_scout d) (fd_lut d) E1 stL1 []
+  destruct (IHfb _ Wb (fd_g d) (fd_k d) (fd_body d) (fd_ctx d) (fd_c d) (fd_code d) (fd_c' d) ec st1 rb st2 _ (fd_scout d) (fd_lut d) E1 stL1 []
                  Hbv (fs_lower _ _ _ _ _ Hst) (fs_frag _ _ _ _ _ Hst) (fs_ucov _ _ _ _ _ Hst) Hctx Hrel1' Hintb)
     as (b & l' & Hs & Hpost).
   assert (Hb : b = fbody u d) by (unfold fbody; apply (Emits_block_fun u _ _ _ l'); apply Hs).
@@ -863,26 +936,14 @@ Proof.
   3: { (* an early return *)
     inversion Hap; subst r st'. clear Hap.
     destruct Hpost as (fl2 & W2 & sc2 & e2 & E2 & E' & stL' & lv & Hx & Hvl & Hrel2 & Hws & Hse & Hinc2 & Hk & Hnc2).
-    assert (Hback : SimDefs.rel pv sv bound u fl W sc e st2 E stL' /\ call_frame bound E stL stL').
-    { apply (caller_back d sc e st E stL fl2 W2 sc2 e2 E2 st2 stL' Hrel Hd Hvis Hrel2 Hws).
-      - intros g Hg. apply Hinc2. apply in_or_app. right. exact Hg.
-      - intros g Hg. rewrite <- (Hlkf g Hg). apply Hse. destruct Hg as [Hg|Hg]; [left; apply in_or_app; right; exact Hg | right; left; exact Hg].
-      - intros g Hg. rewrite (Hk g (in_or_app _ _ _ (or_intror Hg))). apply Hu1. intros Hin. destruct (Hpall g Hin) as (Hn & _). exact (Hn Hg).
-      - lia. }
-    destruct Hback as [Hrelc Hcf].
+    destruct (caller_back fl W W1 sc e st E stL fl2 W2 sc2 e2 E2 st2 stL' Hfs Hs1 Hrel Hrel2 (wsub_trans _ _ _ Hwb Hws) ltac:(lia)) as [Hrelc Hcf].
     exists [lv], stL'. splits; [| exact Hvl | exact Hrelc | exact Hcf].
     eapply (Call_closure (fd_fid d) _ lvs stL E1 stL1 E' [lv] stL' HcloL Hbl').
     cbn [c_body]. apply ExecBlock_of_ExecS; [exact Hx | exact Hnl | intros []]. }
   - (* the body ends: back in the caller *)
     inversion Hap; subst r st'. clear Hap.
     destruct Hpost as (fl2 & W2 & E' & sg & stL' & sc2 & e2 & Hx & Hsg & Hrel2 & Hws & Hse & Hinc2 & Hk & Hnc2).
-    assert (Hback : SimDefs.rel pv sv bound u fl W sc e st2 E stL' /\ call_frame bound E stL stL').
-    { apply (caller_back d sc e st E stL fl2 W2 sc2 e2 E' st2 stL' Hrel Hd Hvis Hrel2 Hws).
-      - intros g Hg. apply Hinc2. apply in_or_app. right. exact Hg.
-      - intros g Hg. rewrite <- (Hlkf g Hg). apply Hse. destruct Hg as [Hg|Hg]; [left; apply in_or_app; right; exact Hg | right; left; exact Hg].
-      - intros g Hg. rewrite (Hk g (in_or_app _ _ _ (or_intror Hg))). apply Hu1. intros Hin. destruct (Hpall g Hin) as (Hn & _). exact (Hn Hg).
-      - lia. }
-    destruct Hback as [Hrelc Hcf].
+    destruct (caller_back fl W W1 sc e st E stL fl2 W2 sc2 e2 E' st2 stL' Hfs Hs1 Hrel Hrel2 (wsub_trans _ _ _ Hwb Hws) ltac:(lia)) as [Hrelc Hcf].
     destruct Hsg as [[-> ->]|(lv & -> & Hvl)].
     + exists [], stL'. splits; [|constructor | exact Hrelc | exact Hcf].
       eapply (Call_closure_normal (fd_fid d) _ lvs stL E1 stL1 E' stL' HcloL Hbl').
@@ -906,13 +967,13 @@ Variable sv : N.
 Variable bound : N.
 Variable u : counts.
 
-Definition P_all_at (n : nat) (fl : list (N * nat)) (W : world) : Prop :=
+Definition P_all_at (n : nat) (fl : list (N * kind)) (W : world) : Prop :=
   P_eval pv sv bound u fl W n /\ P_exec pv sv bound u fl W n /\ P_blk pv sv bound u fl W n /\
   P_bv pv sv bound u fl W n /\ P_fb pv sv bound u fl W n /\ P_apply pv sv bound u fl W n.
 
 Lemma P_apply_zero fl W : P_apply pv sv bound u fl W O.
 Proof.
-  intros d avs lvs sc e st E stL r st' _ _ _ _ Hap Hint. cbn in Hap. inversion Hap; subst. destruct Hint.
+  intros d avs lvs sc e st E stL r st' _ _ _ Hap Hint. cbn in Hap. inversion Hap; subst. destruct Hint.
 Qed.
 
 (* by induction on the fuel of the reference interpreter, for every set of callable functions and every world:
